@@ -44,11 +44,15 @@ Proof.
   unfold build_empty_packet, block_decode.
   destruct h as [ty dup q rt rl]. cbn [h_typ h_rl].
   destruct ty; intros Hb H; try discriminate Hb;
-    try (vm_compute in H; inversion H; reflexivity).
-  - unfold disconnect_decode in H. cbn [h_rl h_typ] in H. destruct (rl =? 0); [discriminate Hb|].
-    destruct (rl =? 1); vm_compute in H; inversion H; reflexivity.
-  - unfold auth_decode in H. cbn [h_rl h_typ] in H. destruct (rl =? 0); [discriminate Hb|].
-    vm_compute in H; inversion H; reflexivity.
+    lazymatch type of H with
+    | context [disconnect_decode] =>
+        unfold disconnect_decode in H; cbn [h_rl h_typ] in H; destruct (rl =? 0); [discriminate Hb|];
+        destruct (rl =? 1); vm_compute in H; inversion H; reflexivity
+    | context [auth_decode] =>
+        unfold auth_decode in H; cbn [h_rl h_typ] in H; destruct (rl =? 0); [discriminate Hb|];
+        vm_compute in H; inversion H; reflexivity
+    | _ => vm_compute in H; inversion H; reflexivity
+    end.
 Qed.
 
 Notation poll5 prof := (F5.poll1 prof).
@@ -153,3 +157,1717 @@ Proof.
   - intros rest. apply async_err_to_block_5; [apply A|reflexivity].
   - intros t rest. apply varint_err_to_poll; assumption.
 Qed.
+
+(* ------------------------------------------------------------------------------------ *)
+(* (b) packet identifier 0                                                              *)
+(* ------------------------------------------------------------------------------------ *)
+Definition pid_first (t : ptype) : bool :=
+  match t with
+  | PPuback | PPubrec | PPubrel | PPubcomp | PUnsuback | PSubscribe | PSuback | PUnsubscribe => true
+  | _ => false
+  end.
+
+Theorem C20_pid_zero_5 prof cb n h : n < VMAX -> header_new_with cb n = Ok h -> pid_first (h_typ h) = true ->
+  forall t rest, F5.dec_async prof t (cb :: write_var_int n ++ 0 :: 0 :: rest) = RErr ZeroPid.
+Proof.
+  intros Hn Hh Hp t rest. rewrite (frame5 prof cb n h t _ Hn Hh). unfold body_decode_async.
+  destruct (h_typ h); try discriminate Hp;
+    unfold ack_decode, subscribe_decode, suback_decode, unsubscribe_decode;
+    err_by ltac:(apply pid_zero_bytes).
+Qed.
+
+Definition PID_FIRST_CBS : list N := [64; 80; 98; 112; 130; 144; 162; 176].
+
+Lemma pid_first_header cb n : In cb PID_FIRST_CBS ->
+  exists h, header_new_with cb n = Ok h /\ pid_first (h_typ h) = true.
+Proof.
+  cbn [In PID_FIRST_CBS]. intros H.
+  repeat (destruct H as [<-|H]; [eexists; split; reflexivity|]). contradiction.
+Qed.
+
+Theorem C20_pid_zero_5_all prof cb x : In cb PID_FIRST_CBS -> len (0 :: 0 :: x) < VMAX ->
+  classified5 prof (cb :: write_var_int (len (0 :: 0 :: x)) ++ 0 :: 0 :: x) ZeroPid.
+Proof.
+  intros Hc Hn. destruct (pid_first_header cb (len (0 :: 0 :: x)) Hc) as (h & Hh & Hp).
+  apply classify5; [exact Hn|reflexivity|]. intros t sfx. cbn [app].
+  apply (C20_pid_zero_5 prof cb _ h Hn Hh Hp).
+Qed.
+
+Theorem C20_pid_zero_publish_5 prof cb n h topic : n < VMAX -> header_new_with cb n = Ok h ->
+  h_typ h = PPublish -> h_qos h <> 0 ->
+  utf8_valid topic = true -> len topic <= 65535 -> 2 + len topic + 2 <= n ->
+  forall t rest, F5.dec_async prof t (cb :: write_var_int n ++ be16 (len topic mod 65536) ++ topic ++ 0 :: 0 :: rest)
+                 = RErr ZeroPid.
+Proof.
+  intros Hn Hh Ht Hq Hv Hl Hrl t rest. rewrite (frame5 prof cb n h t _ Hn Hh). unfold body_decode_async.
+  rewrite Ht. unfold publish_decode. rewrite (PollSched.V5_new_with_rl _ _ _ Hh).
+  ok_by ltac:(apply read_string_lp; assumption).
+  ok_by ltac:(apply checked_sub_ok; lia).
+  destruct (N.eqb_spec (h_qos h) 0) as [E|_]; [contradiction|].
+  destruct (h_qos h =? 1);
+    (ok_by ltac:(apply checked_sub_ok; lia)); err_by ltac:(apply pid_zero_bytes).
+Qed.
+
+Lemma publish_header cb n : cb / 16 = 3 -> (cb mod 16 / 2) mod 4 <> 3 ->
+  exists h, header_new_with cb n = Ok h /\ h_typ h = PPublish /\ h_qos h = (cb mod 16 / 2) mod 4 /\ h_rl h = n.
+Proof.
+  intros Hi Hq. rewrite header5_spec, Hi. unfold header5_table, header5_verdict, header_verdict.
+  cbn [ptype_of_nibble5].
+  destruct (N.eqb_spec ((cb mod 16 / 2) mod 4) 3) as [E|_]; [contradiction|].
+  eexists. split; [reflexivity|]. repeat split; reflexivity.
+Qed.
+
+Theorem C20_pid_zero_publish_5_all prof cb topic x :
+  cb / 16 = 3 -> (cb mod 16 / 2) mod 4 = 1 \/ (cb mod 16 / 2) mod 4 = 2 ->
+  utf8_valid topic = true -> len topic <= 65535 ->
+  let body := be16 (len topic mod 65536) ++ topic ++ 0 :: 0 :: x in
+  len body < VMAX ->
+  classified5 prof (cb :: write_var_int (len body) ++ body) ZeroPid.
+Proof.
+  intros Hi Hq Hv Hl body Hn.
+  destruct (publish_header cb (len body) Hi) as (h & Hh & Ht & Hq' & _); [lia|].
+  apply classify5; [exact Hn|reflexivity|]. intros t sfx. unfold body. rewrite <- !app_assoc. cbn [app].
+  apply (C20_pid_zero_publish_5 prof cb _ h topic Hn Hh Ht); try assumption; [lia|].
+  unfold body. rewrite !len_app, len_be16, !len_cons. lia.
+Qed.
+
+(* ------------------------------------------------------------------------------------ *)
+(* (c) code rows                                                                        *)
+(* ------------------------------------------------------------------------------------ *)
+Lemma connack_header n : header_new_with 32 n = Ok (V3.mk_header PConnack n).
+Proof. reflexivity. Qed.
+
+Theorem C20_connack_flags_5_frame prof n f c : n < VMAX -> 2 <= f ->
+  forall t rest, F5.dec_async prof t (32 :: write_var_int n ++ f :: c :: rest) = RErr (InvalidConnackFlags f).
+Proof.
+  intros Hn Hf t rest. rewrite (frame5 prof 32 n _ t _ Hn (connack_header n)). unfold body_decode_async.
+  cbn [h_typ V3.mk_header]. apply bind_err. apply (C20_connack_flags_5 _ f c t rest); exact Hf.
+Qed.
+
+Theorem C20_connack_code_5_frame prof n f c : n < VMAX -> f < 2 -> mem_n c CONNECT_CODES = false ->
+  forall t rest, F5.dec_async prof t (32 :: write_var_int n ++ f :: c :: rest) = RErr (InvalidReasonCode PConnack c).
+Proof.
+  intros Hn Hf Hc t rest. rewrite (frame5 prof 32 n _ t _ Hn (connack_header n)). unfold body_decode_async.
+  cbn [h_typ V3.mk_header]. apply bind_err.
+  apply (C20_connack_code_5 (V3.mk_header PConnack n) f c t rest); assumption.
+Qed.
+
+Theorem C20_connack_flags_5_all prof f c x : 2 <= f -> len (f :: c :: x) < VMAX ->
+  classified5 prof (32 :: write_var_int (len (f :: c :: x)) ++ f :: c :: x) (InvalidConnackFlags f).
+Proof.
+  intros Hf Hn. apply (classify5 prof 32 (f :: c :: x)); [exact Hn|reflexivity|]. intros t sfx. cbn [app].
+  apply C20_connack_flags_5_frame; assumption.
+Qed.
+Theorem C20_connack_code_5_all prof f c x : f < 2 -> mem_n c CONNECT_CODES = false -> len (f :: c :: x) < VMAX ->
+  classified5 prof (32 :: write_var_int (len (f :: c :: x)) ++ f :: c :: x) (InvalidReasonCode PConnack c).
+Proof.
+  intros Hf Hc Hn. apply (classify5 prof 32 (f :: c :: x)); [exact Hn|reflexivity|]. intros t sfx. cbn [app].
+  apply C20_connack_code_5_frame; assumption.
+Qed.
+
+(* PUBACK / PUBREC / PUBREL / PUBCOMP: the reason code follows the packet identifier when the
+   remaining length is not 2 *)
+Definition ack_type (t : ptype) : bool :=
+  match t with PPuback | PPubrec | PPubrel | PPubcomp => true | _ => false end.
+
+Theorem C20_ack_code_5 prof cb n h pid c : n < VMAX -> header_new_with cb n = Ok h -> ack_type (h_typ h) = true ->
+  n <> 2 -> pid_ok pid = true -> mem_n c (codes_of (h_typ h)) = false ->
+  forall t rest, F5.dec_async prof t (cb :: write_var_int n ++ be16 pid ++ c :: rest)
+                 = RErr (InvalidReasonCode (h_typ h) c).
+Proof.
+  intros Hn Hh Ha Hn2 Hp Hc t rest. rewrite (frame5 prof cb n h t _ Hn Hh). unfold body_decode_async.
+  pose proof (PollSched.V5_new_with_rl _ _ _ Hh) as Hrl.
+  destruct (h_typ h) eqn:Et; try discriminate Ha; unfold ack_decode; rewrite Hrl, Et;
+    (ok_by ltac:(apply pid_read_be16; exact Hp));
+    (destruct (N.eqb_spec n 2) as [E|_]; [contradiction|]);
+    destruct (n =? 3); err_by ltac:(apply C20_reason_read; exact Hc).
+Qed.
+
+Definition ACK_CBS : list N := [64; 80; 98; 112].
+Definition ack_ptype_of_cb (cb : N) : ptype :=
+  match cb with 64 => PPuback | 80 => PPubrec | 98 => PPubrel | _ => PPubcomp end.
+
+Lemma ack_header cb n : In cb ACK_CBS ->
+  exists h, header_new_with cb n = Ok h /\ ack_type (h_typ h) = true /\ h_typ h = ack_ptype_of_cb cb.
+Proof.
+  cbn [In ACK_CBS]. intros H.
+  repeat (destruct H as [<-|H]; [eexists; repeat split; reflexivity|]). contradiction.
+Qed.
+
+Theorem C20_ack_code_5_all prof cb pid c x : In cb ACK_CBS -> pid_ok pid = true ->
+  mem_n c (codes_of (ack_ptype_of_cb cb)) = false ->
+  let body := be16 pid ++ c :: x in len body < VMAX ->
+  classified5 prof (cb :: write_var_int (len body) ++ body) (InvalidReasonCode (ack_ptype_of_cb cb) c).
+Proof.
+  intros Hcb Hp Hc body Hn. destruct (ack_header cb (len body) Hcb) as (h & Hh & Ha & Et).
+  apply classify5; [exact Hn|reflexivity|]. intros t sfx. unfold body. rewrite <- !app_assoc. cbn [app].
+  rewrite <- Et. apply (C20_ack_code_5 prof cb _ h pid c Hn Hh Ha); [|exact Hp|rewrite Et; exact Hc].
+  unfold body. rewrite len_app, len_be16, len_cons. lia.
+Qed.
+
+(* DISCONNECT / AUTH: the reason code is the first byte when the remaining length is not 0 *)
+Theorem C20_disconnect_code_5 prof n c : n < VMAX -> n <> 0 -> mem_n c DISCONNECT_CODES = false ->
+  forall t rest, F5.dec_async prof t (224 :: write_var_int n ++ c :: rest) = RErr (InvalidReasonCode PDisconnect c).
+Proof.
+  intros Hn Hn0 Hc t rest. rewrite (frame5 prof 224 n (V3.mk_header PDisconnect n) t _ Hn eq_refl).
+  unfold body_decode_async. cbn [h_typ V3.mk_header]. unfold disconnect_decode. cbn [h_rl h_typ V3.mk_header].
+  destruct (N.eqb_spec n 0) as [E|_]; [contradiction|].
+  destruct (n =? 1); err_by ltac:(apply (C20_reason_read PDisconnect); exact Hc).
+Qed.
+
+Theorem C20_auth_code_5 prof n c : n < VMAX -> n <> 0 -> mem_n c AUTH_CODES = false ->
+  forall t rest, F5.dec_async prof t (240 :: write_var_int n ++ c :: rest) = RErr (InvalidReasonCode PAuth c).
+Proof.
+  intros Hn Hn0 Hc t rest. rewrite (frame5 prof 240 n (V3.mk_header PAuth n) t _ Hn eq_refl).
+  unfold body_decode_async. cbn [h_typ V3.mk_header]. unfold auth_decode. cbn [h_rl h_typ V3.mk_header].
+  destruct (N.eqb_spec n 0) as [E|_]; [contradiction|].
+  err_by ltac:(apply (C20_reason_read PAuth); exact Hc).
+Qed.
+
+Theorem C20_disconnect_code_5_all prof c x : mem_n c DISCONNECT_CODES = false -> len (c :: x) < VMAX ->
+  classified5 prof (224 :: write_var_int (len (c :: x)) ++ c :: x) (InvalidReasonCode PDisconnect c).
+Proof.
+  intros Hc Hn. apply (classify5 prof 224 (c :: x)); [exact Hn|reflexivity|]. intros t sfx. cbn [app].
+  apply C20_disconnect_code_5; [exact Hn|rewrite len_cons; lia|exact Hc].
+Qed.
+Theorem C20_auth_code_5_all prof c x : mem_n c AUTH_CODES = false -> len (c :: x) < VMAX ->
+  classified5 prof (240 :: write_var_int (len (c :: x)) ++ c :: x) (InvalidReasonCode PAuth c).
+Proof.
+  intros Hc Hn. apply (classify5 prof 240 (c :: x)); [exact Hn|reflexivity|]. intros t sfx. cbn [app].
+  apply C20_auth_code_5; [exact Hn|rewrite len_cons; lia|exact Hc].
+Qed.
+
+(* ------------------------------------------------------------------------------------ *)
+(* (f) the property sections                                                            *)
+(* ------------------------------------------------------------------------------------ *)
+(* a well-formed property section of a valid packet *)
+Definition props_good (L : list prop_id) (ps : props) : Prop :=
+  NoDup (map prop_num L) /\ props_inv L ps = true /\ props_valid L ps = true /\
+  props_body_len L ps < 268435456.
+
+Lemma props_good_len L ps : props_good L ps -> exists pl, props_len L ps = Ok pl /\ clen (props_enc L ps) = pl.
+Proof.
+  intros (_ & Hi & _ & Hb). destruct (props_enc_len L ps Hi Hb) as [E1 E2].
+  eexists. split; [exact E2|reflexivity].
+Qed.
+
+Lemma props_good_rt ctx L ps t rest : props_good L ps ->
+  decode_props ctx L t (concat (props_enc L ps) ++ rest) = ROk ps rest.
+Proof. intros (Hn & Hi & Hv & Hb). apply props_rt_simple; assumption. Qed.
+
+Lemma props_good_rt_full ctx L ps t rest : props_good L ps ->
+  decode_props_full ctx L t (concat (props_enc L ps) ++ rest)
+  = ROk (ps, props_body_len L ps, width (props_body_len L ps)) rest.
+Proof. intros (Hn & Hi & Hv & Hb). apply props_rt; assumption. Qed.
+
+(* Every place where a v5 decoder starts to read a property section: the control byte, the
+   constraint on the declared remaining length under which the section is read at all, the bytes
+   of the body in front of the section (all valid), the error context and the allowed ids. *)
+Inductive section5 : N -> (N -> Prop) -> bytes -> prop_ctx -> list prop_id -> Prop :=
+| sec_connect flags ka : bit flags 0 = false -> ka < 65536 ->
+    section5 16 (fun _ => True) (concat (protocol_enc V500) ++ flags :: be16 ka)
+             (CtxPacket PConnect) CONNECT_PROPS
+| sec_will flags ka ps cid : bit flags 0 = false -> ka < 65536 -> props_good CONNECT_PROPS ps ->
+    len cid <= 65535 -> utf8_valid cid = true -> bit flags 2 = true -> (flags / 8) mod 4 < 3 ->
+    section5 16 (fun _ => True)
+             (concat (protocol_enc V500) ++ flags :: be16 ka ++ concat (props_enc CONNECT_PROPS ps)
+              ++ be16 (len cid mod 65536) ++ cid)
+             CtxWill WILL_PROPS
+| sec_connack f c : f < 2 -> mem_n c CONNECT_CODES = true ->
+    section5 32 (fun _ => True) [f; c] (CtxPacket PConnack) CONNACK_PROPS
+| sec_publish cb topic qp : cb / 16 = 3 -> (cb mod 16 / 2) mod 4 = qospid_qos qp -> qospid_ok qp = true ->
+    len topic <= 65535 -> utf8_valid topic = true ->
+    section5 cb (fun n => 2 + len topic + V3.qospid_len qp <= n)
+             (be16 (len topic mod 65536) ++ topic ++ concat (V3.qospid_enc qp))
+             (CtxPacket PPublish) PUBLISH_PROPS
+| sec_ack cb pid c : In cb ACK_CBS -> pid_ok pid = true -> mem_n c (codes_of (ack_ptype_of_cb cb)) = true ->
+    section5 cb (fun n => n <> 2 /\ n <> 3) (be16 pid ++ [c]) (CtxPacket (ack_ptype_of_cb cb)) ACK_PROPS
+| sec_subscribe pid : pid_ok pid = true ->
+    section5 130 (fun _ => True) (be16 pid) (CtxPacket PSubscribe) SUBSCRIBE_PROPS
+| sec_suback pid : pid_ok pid = true ->
+    section5 144 (fun _ => True) (be16 pid) (CtxPacket PSuback) ACK_PROPS
+| sec_unsubscribe pid : pid_ok pid = true ->
+    section5 162 (fun _ => True) (be16 pid) (CtxPacket PUnsubscribe) UNSUBSCRIBE_PROPS
+| sec_unsuback pid : pid_ok pid = true ->
+    section5 176 (fun _ => True) (be16 pid) (CtxPacket PUnsuback) ACK_PROPS
+| sec_disconnect c : mem_n c DISCONNECT_CODES = true ->
+    section5 224 (fun n => n <> 0 /\ n <> 1) [c] (CtxPacket PDisconnect) DISCONNECT_PROPS
+| sec_auth c : mem_n c AUTH_CODES = true ->
+    section5 240 (fun n => n <> 0) [c] (CtxPacket PAuth) AUTH_PROPS.
+
+Lemma connect_header n : header_new_with 16 n = Ok (V3.mk_header PConnect n).
+Proof. reflexivity. Qed.
+
+(* a CONNECT frame: header, the v5 protocol name and level, then `d` *)
+Lemma connect_frame5 prof n d t : n < VMAX ->
+  F5.dec_async prof t (16 :: write_var_int n ++ concat (protocol_enc V500) ++ d)
+  = (c <- connect_decode_with_protocol (V3.mk_header PConnect n) V500 ;; ret (Connect c)) t d.
+Proof.
+  intros Hn. rewrite (frame5 prof 16 n _ t _ Hn (connect_header n)). unfold body_decode_async.
+  cbn [h_typ V3.mk_header]. unfold connect_decode.
+  ok_by ltac:(apply V5RT.protocol_rt). reflexivity.
+Qed.
+
+(* what connect_decode_with_protocol does after flags, keep-alive, properties, client identifier *)
+Definition connect5_after (flags keep_alive : N) (ps : props) (client_id : bytes) : reader connect :=
+  last_will <-
+    (if bit flags 2 then
+       qos <- lift_outcome (qos_of_u8 ((flags / 8) mod 4)) ;;
+       w <- will_decode qos (bit flags 5) ;;
+       ret (Some w)
+     else if negb ((flags / 8) mod 4 =? 0) then fail (InvalidConnectFlags flags)
+     else ret None) ;;
+  username <- (if bit flags 7 then s <- read_string ;; ret (Some s) else ret None) ;;
+  password <- (if bit flags 6 then s <- read_bytes ;; ret (Some s) else ret None) ;;
+  ret {| c_protocol := V500; c_clean := bit flags 1; c_keep_alive := keep_alive; c_props := ps;
+         c_client_id := client_id; c_will := last_will; c_username := username; c_password := password |}.
+
+Lemma connect5_prefix h flags ka ps cid t r : bit flags 0 = false -> ka < 65536 ->
+  props_good CONNECT_PROPS ps -> len cid <= 65535 -> utf8_valid cid = true ->
+  connect_decode_with_protocol h V500 t
+    (flags :: be16 ka ++ concat (props_enc CONNECT_PROPS ps) ++ be16 (len cid mod 65536) ++ cid ++ r)
+  = connect5_after flags ka ps cid t r.
+Proof.
+  intros Hb Hka Hps Hl Hv. unfold connect_decode_with_protocol.
+  erewrite bind_ok by apply read_u8_cons. rewrite Hb.
+  erewrite bind_ok by (apply read_u16_be16; exact Hka).
+  erewrite bind_ok by (apply props_good_rt; exact Hps).
+  erewrite bind_ok by (apply read_string_lp; assumption). reflexivity.
+Qed.
+
+Theorem section5_fault prof cb nok pre ctx L : section5 cb nok pre ctx L ->
+  forall n d e t, n < VMAX -> nok n -> decode_props_full ctx L t d = RErr e ->
+  F5.dec_async prof t (cb :: write_var_int n ++ pre ++ d) = RErr e.
+Proof.
+  intros Hsec n d e t Hn Hok He. destruct Hsec.
+  - (* connect *)
+    rewrite <- app_assoc. rewrite connect_frame5 by exact Hn. apply bind_err.
+    unfold connect_decode_with_protocol. cbn [app].
+    erewrite bind_ok by apply read_u8_cons. rewrite H.
+    erewrite bind_ok by (apply read_u16_be16; assumption).
+    cbn [h_typ V3.mk_header]. apply props_error_of_full. exact He.
+  - (* will *)
+    rewrite <- !app_assoc. rewrite connect_frame5 by exact Hn. apply bind_err.
+    cbn [app]. rewrite <- !app_assoc. rewrite connect5_prefix by assumption.
+    unfold connect5_after. rewrite H4. unfold qos_of_u8.
+    destruct (N.ltb_spec ((flags / 8) mod 4) 3) as [_|Hge]; [|lia]. cbn [lift_outcome].
+    rewrite ?V3RT.bind_assoc, bind_ret. unfold will_decode.
+    rewrite ?V3RT.bind_assoc. apply props_error_of_full. exact He.
+  - (* connack *)
+    rewrite (frame5 prof 32 n _ t _ Hn (connack_header n)). unfold body_decode_async.
+    cbn [h_typ V3.mk_header]. apply bind_err. unfold connack_decode. cbn [app].
+    erewrite bind_ok by apply FaultsBase.read_exact_2. cbv iota.
+    destruct (N.eqb_spec f 0) as [E0|E0]; [|destruct (N.eqb_spec f 1) as [E1|E1]; [|lia]];
+      rewrite bind_ret, H0, bind_ret; cbn [h_typ V3.mk_header]; apply props_error_of_full; exact He.
+  - (* publish *)
+    assert (Hq3 : (cb mod 16 / 2) mod 4 <> 3) by (rewrite H0; destruct qp; cbn [qospid_qos]; lia).
+    destruct (publish_header cb n H Hq3) as (h & Hh & Ht & Hqh & Hrl).
+    rewrite (frame5 prof cb n h t _ Hn Hh). unfold body_decode_async. rewrite Ht. apply bind_err.
+    unfold publish_decode. rewrite Hrl, Hqh, H0, Ht. rewrite <- !app_assoc.
+    ok_by ltac:(apply read_string_lp; assumption).
+    ok_by ltac:(apply checked_sub_ok; lia).
+    destruct qp as [|pid|pid]; cbn [qospid_qos V3.qospid_enc V3.qospid_len qospid_ok concat app] in *.
+    + change (0 =? 0) with true. cbv iota. rewrite ?V3RT.bind_assoc, bind_ret. cbv beta iota.
+      apply props_error_of_full. exact He.
+    + change (1 =? 0) with false. change (1 =? 1) with true. cbv iota.
+      ok_by ltac:(apply checked_sub_ok; lia).
+      ok_by ltac:(apply pid_read_be16; assumption).
+      rewrite bind_ret. cbv beta iota. apply props_error_of_full. exact He.
+    + change (2 =? 0) with false. change (2 =? 1) with false. cbv iota.
+      ok_by ltac:(apply checked_sub_ok; lia).
+      ok_by ltac:(apply pid_read_be16; assumption).
+      rewrite bind_ret. cbv beta iota. apply props_error_of_full. exact He.
+  - (* puback family *)
+    destruct (ack_header cb n H) as (h & Hh & Ha & Et).
+    rewrite (frame5 prof cb n h t _ Hn Hh). unfold body_decode_async.
+    pose proof (PollSched.V5_new_with_rl _ _ _ Hh) as Hrl. rewrite <- Et in *.
+    destruct Hok as [Hn2 Hn3]. rewrite <- !app_assoc. cbn [app].
+    destruct (h_typ h) eqn:Et'; try discriminate Ha; unfold ack_decode; rewrite Hrl, Et';
+      (ok_by ltac:(apply pid_read_be16; assumption));
+      (destruct (N.eqb_spec n 2) as [E|_]; [contradiction|]);
+      (destruct (N.eqb_spec n 3) as [E|_]; [contradiction|]);
+      (ok_by ltac:(apply reason_read_ok; assumption));
+      rewrite ?V3RT.bind_assoc; apply props_error_of_full; exact He.
+  - (* subscribe *)
+    rewrite (frame5 prof 130 n (V3.mk_header PSubscribe n) t _ Hn eq_refl). unfold body_decode_async.
+    cbn [h_typ V3.mk_header]. unfold subscribe_decode. cbn [h_typ V3.mk_header].
+    ok_by ltac:(apply pid_read_be16; assumption).
+    rewrite ?V3RT.bind_assoc. apply props_error_of_full. exact He.
+  - (* suback *)
+    rewrite (frame5 prof 144 n (V3.mk_header PSuback n) t _ Hn eq_refl). unfold body_decode_async.
+    cbn [h_typ V3.mk_header]. unfold suback_decode. cbn [h_typ V3.mk_header].
+    ok_by ltac:(apply pid_read_be16; assumption).
+    rewrite ?V3RT.bind_assoc. apply props_error_of_full. exact He.
+  - (* unsubscribe: decode_props_full itself *)
+    rewrite (frame5 prof 162 n (V3.mk_header PUnsubscribe n) t _ Hn eq_refl). unfold body_decode_async.
+    cbn [h_typ V3.mk_header]. unfold unsubscribe_decode. cbn [h_typ V3.mk_header].
+    ok_by ltac:(apply pid_read_be16; assumption).
+    rewrite ?V3RT.bind_assoc. apply bind_err. exact He.
+  - (* unsuback *)
+    rewrite (frame5 prof 176 n (V3.mk_header PUnsuback n) t _ Hn eq_refl). unfold body_decode_async.
+    cbn [h_typ V3.mk_header]. unfold suback_decode. cbn [h_typ V3.mk_header].
+    ok_by ltac:(apply pid_read_be16; assumption).
+    rewrite ?V3RT.bind_assoc. apply props_error_of_full. exact He.
+  - (* disconnect *)
+    rewrite (frame5 prof 224 n (V3.mk_header PDisconnect n) t _ Hn eq_refl). unfold body_decode_async.
+    cbn [h_typ V3.mk_header]. unfold disconnect_decode. cbn [h_rl h_typ V3.mk_header].
+    destruct Hok as [Hn0 Hn1].
+    destruct (N.eqb_spec n 0) as [E|_]; [contradiction|].
+    destruct (N.eqb_spec n 1) as [E|_]; [contradiction|]. cbn [app].
+    ok_by ltac:(apply (reason_read_ok PDisconnect); assumption).
+    rewrite ?V3RT.bind_assoc. apply props_error_of_full. exact He.
+  - (* auth *)
+    rewrite (frame5 prof 240 n (V3.mk_header PAuth n) t _ Hn eq_refl). unfold body_decode_async.
+    cbn [h_typ V3.mk_header]. unfold auth_decode. cbn [h_rl h_typ V3.mk_header].
+    destruct (N.eqb_spec n 0) as [E|_]; [contradiction|]. cbn [app].
+    ok_by ltac:(apply (reason_read_ok PAuth); assumption).
+    rewrite ?V3RT.bind_assoc. apply props_error_of_full. exact He.
+Qed.
+
+(* the three front-ends: the section is followed by `d`, on which decode_props_full fails whatever
+   follows; the declared remaining length is the length of the body *)
+Theorem section5_fault_all prof cb nok pre ctx L d e : section5 cb nok pre ctx L -> is_io e = false ->
+  (forall t sfx, decode_props_full ctx L t (d ++ sfx) = RErr e) ->
+  let body := pre ++ d in
+  len body < VMAX -> nok (len body) -> classified5 prof (cb :: write_var_int (len body) ++ body) e.
+Proof.
+  intros Hsec He Hd body Hn Hok. apply classify5; [exact Hn|exact He|]. intros t sfx.
+  unfold body. rewrite <- app_assoc. apply (section5_fault prof cb nok pre ctx L Hsec); [exact Hn|exact Hok|apply Hd].
+Qed.
+
+Lemma ctx_err_det ctx id : is_io (ctx_err ctx id) = false.
+Proof. destruct ctx; reflexivity. Qed.
+
+Section SectionRows.
+Variables (prof : profile) (cb : N) (nok : N -> Prop) (pre : bytes) (ctx : prop_ctx) (L : list prop_id).
+Hypothesis Hsec : section5 cb nok pre ctx L.
+
+(* -- async, any declared length that lets the decoder reach the section -- *)
+Theorem C20_prop_unknown_id_5 n plen b : n < VMAX -> nok n -> 0 < plen < VMAX -> prop_of_u8 b = None ->
+  forall t rest, F5.dec_async prof t (cb :: write_var_int n ++ pre ++ write_var_int plen ++ b :: rest)
+                 = RErr (InvalidPropertyId b).
+Proof.
+  intros Hn Hok [Hp Hm] Hb t rest. apply (section5_fault prof cb nok pre ctx L Hsec); [exact Hn|exact Hok|].
+  apply C20_props_unknown_id; assumption.
+Qed.
+
+Theorem C20_prop_disallowed_5 n plen id : n < VMAX -> nok n -> 0 < plen < VMAX -> prop_mem id L = false ->
+  forall t rest, F5.dec_async prof t (cb :: write_var_int n ++ pre ++ write_var_int plen ++ prop_num id :: rest)
+                 = RErr (ctx_err ctx id).
+Proof.
+  intros Hn Hok [Hp Hm] Hb t rest. apply (section5_fault prof cb nok pre ctx L Hsec); [exact Hn|exact Hok|].
+  apply C20_props_disallowed; assumption.
+Qed.
+
+Theorem C20_prop_duplicated_5 n plen id v : n < VMAX -> nok n -> plen < VMAX -> prop_mem id L = true ->
+  value_inv (prop_wtype id) v = true -> value_valid (prop_wtype id) v = true ->
+  1 + value_len (prop_wtype id) v < plen ->
+  forall t rest, F5.dec_async prof t (cb :: write_var_int n ++ pre ++ write_var_int plen
+      ++ prop_num id :: concat (encode_value (prop_wtype id) v) ++ prop_num id :: rest)
+    = RErr (DuplicatedProperty (prop_num id)).
+Proof.
+  intros Hn Hok Hm Hb Hi Hv Hl t rest. apply (section5_fault prof cb nok pre ctx L Hsec); [exact Hn|exact Hok|].
+  apply C20_props_duplicated; try assumption. lia.
+Qed.
+
+Theorem C20_prop_bad_byte_5 n plen id v : n < VMAX -> nok n -> 0 < plen < VMAX -> prop_mem id L = true ->
+  byte_valued id = true -> 1 < v ->
+  forall t rest, F5.dec_async prof t (cb :: write_var_int n ++ pre ++ write_var_int plen ++ prop_num id :: v :: rest)
+                 = RErr (InvalidByteProperty (prop_num id) v).
+Proof.
+  intros Hn Hok [Hp Hm] Hb Hbv Hv t rest. apply (section5_fault prof cb nok pre ctx L Hsec); [exact Hn|exact Hok|].
+  apply C20_props_bad_byte; assumption.
+Qed.
+
+Theorem C20_prop_length_minus_one_5 n id v : n < VMAX -> nok n -> prop_mem id L = true ->
+  value_inv (prop_wtype id) v = true -> value_valid (prop_wtype id) v = true ->
+  forall t rest, F5.dec_async prof t (cb :: write_var_int n ++ pre ++ write_var_int (value_len (prop_wtype id) v)
+      ++ prop_num id :: concat (encode_value (prop_wtype id) v) ++ rest)
+    = RErr (InvalidPropertyLength (value_len (prop_wtype id) v)).
+Proof.
+  intros Hn Hok Hb Hi Hv t rest. apply (section5_fault prof cb nok pre ctx L Hsec); [exact Hn|exact Hok|].
+  apply C20_props_length_minus_one; assumption.
+Qed.
+
+Theorem C20_prop_length_varint_5 n b0 b1 b2 b3 : n < VMAX -> nok n ->
+  128 <= b0 -> 128 <= b1 -> 128 <= b2 -> 128 <= b3 ->
+  forall t rest, F5.dec_async prof t (cb :: write_var_int n ++ pre ++ b0 :: b1 :: b2 :: b3 :: rest)
+                 = RErr InvalidVarByteInt.
+Proof.
+  intros Hn Hok H0 H1 H2 H3 t rest. apply (section5_fault prof cb nok pre ctx L Hsec); [exact Hn|exact Hok|].
+  apply C20_varint_props_full; assumption.
+Qed.
+
+(* a string-valued property whose text is not UTF-8 *)
+Theorem C20_prop_string_not_utf8_5 n plen id s : n < VMAX -> nok n -> 0 < plen < VMAX -> prop_mem id L = true ->
+  string_valued id = true -> len s <= 65535 -> utf8_valid s = false ->
+  forall t rest, F5.dec_async prof t (cb :: write_var_int n ++ pre ++ write_var_int plen
+      ++ prop_num id :: be16 (len s mod 65536) ++ s ++ rest) = RErr InvalidString.
+Proof.
+  intros Hn Hok [Hp Hm] Hb Hs Hl Hv t rest. apply (section5_fault prof cb nok pre ctx L Hsec); [exact Hn|exact Hok|].
+  apply C20_props_value_error; try assumption. apply C20_string_property_value; assumption.
+Qed.
+
+(* a User Property whose name is not UTF-8 *)
+Theorem C20_prop_user_not_utf8_5 n plen s : n < VMAX -> nok n -> 0 < plen < VMAX ->
+  len s <= 65535 -> utf8_valid s = false ->
+  forall t rest, F5.dec_async prof t (cb :: write_var_int n ++ pre ++ write_var_int plen
+      ++ USER_PROPERTY :: be16 (len s mod 65536) ++ s ++ rest) = RErr InvalidString.
+Proof.
+  intros Hn Hok [Hp Hm] Hl Hv t rest. apply (section5_fault prof cb nok pre ctx L Hsec); [exact Hn|exact Hok|].
+  apply C20_props_user_name_not_utf8; assumption.
+Qed.
+
+(* -- the three front-ends, consistent remaining length -- *)
+Theorem C20_prop_unknown_id_5_all plen b x : 0 < plen < VMAX -> prop_of_u8 b = None ->
+  let body := pre ++ write_var_int plen ++ b :: x in
+  len body < VMAX -> nok (len body) ->
+  classified5 prof (cb :: write_var_int (len body) ++ body) (InvalidPropertyId b).
+Proof.
+  intros [Hp Hm] Hb. apply (section5_fault_all prof cb nok pre ctx L _ _ Hsec); [reflexivity|].
+  intros t sfx. rewrite <- app_assoc. cbn [app]. apply C20_props_unknown_id; assumption.
+Qed.
+
+Theorem C20_prop_disallowed_5_all plen id x : 0 < plen < VMAX -> prop_mem id L = false ->
+  let body := pre ++ write_var_int plen ++ prop_num id :: x in
+  len body < VMAX -> nok (len body) ->
+  classified5 prof (cb :: write_var_int (len body) ++ body) (ctx_err ctx id).
+Proof.
+  intros [Hp Hm] Hb. apply (section5_fault_all prof cb nok pre ctx L _ _ Hsec); [apply ctx_err_det|].
+  intros t sfx. rewrite <- app_assoc. cbn [app]. apply C20_props_disallowed; assumption.
+Qed.
+
+Theorem C20_prop_duplicated_5_all plen id v x : plen < VMAX -> prop_mem id L = true ->
+  value_inv (prop_wtype id) v = true -> value_valid (prop_wtype id) v = true ->
+  1 + value_len (prop_wtype id) v < plen ->
+  let body := pre ++ write_var_int plen ++ prop_num id :: concat (encode_value (prop_wtype id) v) ++ prop_num id :: x in
+  len body < VMAX -> nok (len body) ->
+  classified5 prof (cb :: write_var_int (len body) ++ body) (DuplicatedProperty (prop_num id)).
+Proof.
+  intros Hm Hb Hi Hv Hl. apply (section5_fault_all prof cb nok pre ctx L _ _ Hsec); [reflexivity|].
+  intros t sfx. rewrite <- app_assoc. cbn [app]. rewrite <- app_assoc. cbn [app].
+  apply C20_props_duplicated; try assumption. lia.
+Qed.
+
+Theorem C20_prop_bad_byte_5_all plen id v x : 0 < plen < VMAX -> prop_mem id L = true ->
+  byte_valued id = true -> 1 < v ->
+  let body := pre ++ write_var_int plen ++ prop_num id :: v :: x in
+  len body < VMAX -> nok (len body) ->
+  classified5 prof (cb :: write_var_int (len body) ++ body) (InvalidByteProperty (prop_num id) v).
+Proof.
+  intros [Hp Hm] Hb Hbv Hv. apply (section5_fault_all prof cb nok pre ctx L _ _ Hsec); [reflexivity|].
+  intros t sfx. rewrite <- app_assoc. cbn [app]. apply C20_props_bad_byte; assumption.
+Qed.
+
+Theorem C20_prop_length_minus_one_5_all id v x : prop_mem id L = true ->
+  value_inv (prop_wtype id) v = true -> value_valid (prop_wtype id) v = true ->
+  let body := pre ++ write_var_int (value_len (prop_wtype id) v)
+              ++ prop_num id :: concat (encode_value (prop_wtype id) v) ++ x in
+  len body < VMAX -> nok (len body) ->
+  classified5 prof (cb :: write_var_int (len body) ++ body) (InvalidPropertyLength (value_len (prop_wtype id) v)).
+Proof.
+  intros Hb Hi Hv. apply (section5_fault_all prof cb nok pre ctx L _ _ Hsec); [reflexivity|].
+  intros t sfx. rewrite <- app_assoc. cbn [app]. rewrite <- app_assoc.
+  apply C20_props_length_minus_one; assumption.
+Qed.
+
+Theorem C20_prop_length_varint_5_all b0 b1 b2 b3 x : 128 <= b0 -> 128 <= b1 -> 128 <= b2 -> 128 <= b3 ->
+  let body := pre ++ b0 :: b1 :: b2 :: b3 :: x in
+  len body < VMAX -> nok (len body) ->
+  classified5 prof (cb :: write_var_int (len body) ++ body) InvalidVarByteInt.
+Proof.
+  intros H0 H1 H2 H3. apply (section5_fault_all prof cb nok pre ctx L _ _ Hsec); [reflexivity|].
+  intros t sfx. cbn [app]. apply C20_varint_props_full; assumption.
+Qed.
+
+Theorem C20_prop_string_not_utf8_5_all plen id s x : 0 < plen < VMAX -> prop_mem id L = true ->
+  string_valued id = true -> len s <= 65535 -> utf8_valid s = false ->
+  let body := pre ++ write_var_int plen ++ prop_num id :: be16 (len s mod 65536) ++ s ++ x in
+  len body < VMAX -> nok (len body) ->
+  classified5 prof (cb :: write_var_int (len body) ++ body) InvalidString.
+Proof.
+  intros [Hp Hm] Hb Hs Hl Hv. apply (section5_fault_all prof cb nok pre ctx L _ _ Hsec); [reflexivity|].
+  intros t sfx. rewrite <- app_assoc. cbn [app]. rewrite <- !app_assoc.
+  apply C20_props_value_error; try assumption. apply C20_string_property_value; assumption.
+Qed.
+End SectionRows.
+
+(* Response Topic with a wildcard (PUBLISH, will); over-long Subscription Identifier (PUBLISH, SUBSCRIBE) *)
+Theorem C20_prop_response_topic_5 prof cb nok pre ctx L n plen s :
+  section5 cb nok pre ctx L -> n < VMAX -> nok n -> 0 < plen < VMAX -> prop_mem ResponseTopic L = true ->
+  len s <= 65535 -> utf8_valid s = true -> name_is_invalid s = true ->
+  forall t rest, F5.dec_async prof t (cb :: write_var_int n ++ pre ++ write_var_int plen
+      ++ 8 :: be16 (len s mod 65536) ++ s ++ rest) = RErr InvalidResponseTopic.
+Proof.
+  intros Hsec Hn Hok [Hp Hm] Hb Hl Hv Hi t rest.
+  apply (section5_fault prof cb nok pre ctx L Hsec); [exact Hn|exact Hok|].
+  apply (C20_props_value_error ctx L plen t _ Hp Hm ResponseTopic); [exact Hb|].
+  apply C20_response_topic; assumption.
+Qed.
+
+Theorem C20_prop_subscription_id_varint_5 prof cb nok pre ctx L n plen b0 b1 b2 b3 :
+  section5 cb nok pre ctx L -> n < VMAX -> nok n -> 0 < plen < VMAX -> prop_mem SubscriptionIdentifier L = true ->
+  128 <= b0 -> 128 <= b1 -> 128 <= b2 -> 128 <= b3 ->
+  forall t rest, F5.dec_async prof t (cb :: write_var_int n ++ pre ++ write_var_int plen
+      ++ 11 :: b0 :: b1 :: b2 :: b3 :: rest) = RErr InvalidVarByteInt.
+Proof.
+  intros Hsec Hn Hok [Hp Hm] Hb H0 H1 H2 H3 t rest.
+  apply (section5_fault prof cb nok pre ctx L Hsec); [exact Hn|exact Hok|].
+  apply (C20_props_value_error ctx L plen t _ Hp Hm SubscriptionIdentifier); [exact Hb|].
+  apply C20_varint_subscription_id; assumption.
+Qed.
+
+(* ------------------------------------------------------------------------------------ *)
+(* (c, continued) the k-th reason code of SUBACK / UNSUBACK                              *)
+(* ------------------------------------------------------------------------------------ *)
+Lemma codes_loop_bad table pt c t rest : mem_n c (codes_of table) = false ->
+  forall codes fuel rl acc,
+  forallb (fun x => mem_n x (codes_of table)) codes = true -> len codes < rl -> (length codes < fuel)%nat ->
+  codes_loop table pt fuel rl acc t (codes ++ c :: rest) = RErr (InvalidReasonCode pt c).
+Proof.
+  intros Hc. induction codes as [|x codes IH]; intros fuel rl acc Hok Hl Hf.
+  - destruct fuel as [|f]; [cbn [length] in Hf; lia|]. cbn [codes_loop app].
+    destruct (N.eqb_spec rl 0) as [E|_]; [rewrite len_nil in Hl; lia|].
+    apply bind_err. apply C20_reason_read. exact Hc.
+  - destruct fuel as [|f]; [cbn [length] in Hf; lia|]. cbn [codes_loop app].
+    rewrite len_cons in Hl. destruct (N.eqb_spec rl 0) as [E|_]; [lia|].
+    cbn [forallb] in Hok. apply andb_true_iff in Hok as [Hx Hok].
+    erewrite bind_ok by (apply reason_read_ok; exact Hx).
+    apply IH; [exact Hok|lia|cbn [length] in Hf; lia].
+Qed.
+
+Definition suback_cb (table : ptype) : N := match table with PSuback => 144 | _ => 176 end.
+
+Theorem C20_suback_code_5 prof table n pid ps codes c : table = PSuback \/ table = PUnsuback ->
+  n < VMAX -> pid_ok pid = true -> props_good ACK_PROPS ps ->
+  forallb (fun x => mem_n x (codes_of table)) codes = true -> mem_n c (codes_of table) = false ->
+  2 + clen (props_enc ACK_PROPS ps) + len codes < n ->
+  forall t rest, F5.dec_async prof t (suback_cb table :: write_var_int n ++ be16 pid ++ concat (props_enc ACK_PROPS ps)
+                                        ++ codes ++ c :: rest) = RErr (InvalidReasonCode table c).
+Proof.
+  intros Ht Hn Hp Hps Hok Hc Hl t rest. destruct (props_good_len _ _ Hps) as (pl & Hpl & Hcl).
+  assert (Hh : header_new_with (suback_cb table) n = Ok (V3.mk_header table n)) by (destruct Ht as [->| ->]; reflexivity).
+  rewrite (frame5 prof _ n _ t _ Hn Hh). unfold body_decode_async. cbn [h_typ V3.mk_header].
+  assert (E : suback_decode table (V3.mk_header table n) t
+                (be16 pid ++ concat (props_enc ACK_PROPS ps) ++ codes ++ c :: rest) = RErr (InvalidReasonCode table c)).
+  { unfold suback_decode. cbn [h_typ h_rl V3.mk_header].
+    ok_by ltac:(apply pid_read_be16; exact Hp).
+    ok_by ltac:(apply props_good_rt; exact Hps).
+    rewrite Hpl. cbn [lift_outcome]. rewrite ?V3RT.bind_assoc, bind_ret.
+    ok_by ltac:(apply checked_sub_ok; lia).
+    apply bind_err. apply codes_loop_bad; [exact Hc|exact Hok|lia|]. rewrite app_length. lia. }
+  destruct Ht as [-> | ->]; apply bind_err; exact E.
+Qed.
+
+Theorem C20_suback_code_5_all prof table pid ps codes c x : table = PSuback \/ table = PUnsuback ->
+  pid_ok pid = true -> props_good ACK_PROPS ps ->
+  forallb (fun y => mem_n y (codes_of table)) codes = true -> mem_n c (codes_of table) = false ->
+  let body := be16 pid ++ concat (props_enc ACK_PROPS ps) ++ codes ++ c :: x in
+  len body < VMAX ->
+  classified5 prof (suback_cb table :: write_var_int (len body) ++ body) (InvalidReasonCode table c).
+Proof.
+  intros Ht Hp Hps Hok Hc body Hn. apply classify5; [exact Hn|reflexivity|]. intros t sfx.
+  unfold body. rewrite <- !app_assoc. cbn [app].
+  apply C20_suback_code_5; try assumption.
+  unfold body. rewrite !len_app, len_be16, len_cons. unfold clen. lia.
+Qed.
+
+(* ------------------------------------------------------------------------------------ *)
+(* (d) CONNECT rows                                                                     *)
+(* ------------------------------------------------------------------------------------ *)
+Theorem C20_connect_reserved_flag_5 h flags t r : bit flags 0 = true ->
+  connect_decode_with_protocol h V500 t (flags :: r) = RErr (InvalidConnectFlags flags).
+Proof.
+  intros Hb. unfold connect_decode_with_protocol.
+  erewrite bind_ok by apply read_u8_cons. rewrite Hb. reflexivity.
+Qed.
+
+(* will-QoS bits without the will flag: found after keep-alive, properties and client identifier *)
+Theorem C20_connect_will_qos_without_will_5 h flags ka ps cid t r : bit flags 0 = false -> ka < 65536 ->
+  props_good CONNECT_PROPS ps -> len cid <= 65535 -> utf8_valid cid = true ->
+  bit flags 2 = false -> (flags / 8) mod 4 <> 0 ->
+  connect_decode_with_protocol h V500 t
+    (flags :: be16 ka ++ concat (props_enc CONNECT_PROPS ps) ++ be16 (len cid mod 65536) ++ cid ++ r)
+  = RErr (InvalidConnectFlags flags).
+Proof.
+  intros Hb Hka Hps Hl Hv Hw Hq. rewrite connect5_prefix by assumption. unfold connect5_after.
+  rewrite Hw. destruct (N.eqb_spec ((flags / 8) mod 4) 0) as [E|_]; [contradiction|]. reflexivity.
+Qed.
+
+(* will QoS 3: found right after the client identifier, before the will is read *)
+Theorem C20_connect_will_qos3_5 h flags ka ps cid t r : bit flags 0 = false -> ka < 65536 ->
+  props_good CONNECT_PROPS ps -> len cid <= 65535 -> utf8_valid cid = true ->
+  bit flags 2 = true -> (flags / 8) mod 4 = 3 ->
+  connect_decode_with_protocol h V500 t
+    (flags :: be16 ka ++ concat (props_enc CONNECT_PROPS ps) ++ be16 (len cid mod 65536) ++ cid ++ r)
+  = RErr (InvalidQos 3).
+Proof.
+  intros Hb Hka Hps Hl Hv Hw Hq. rewrite connect5_prefix by assumption. unfold connect5_after.
+  rewrite Hw, Hq. reflexivity.
+Qed.
+
+Theorem C20_connect_client_id_not_utf8_5 h flags ka ps cid t r : bit flags 0 = false -> ka < 65536 ->
+  props_good CONNECT_PROPS ps -> len cid <= 65535 -> utf8_valid cid = false ->
+  connect_decode_with_protocol h V500 t
+    (flags :: be16 ka ++ concat (props_enc CONNECT_PROPS ps) ++ be16 (len cid mod 65536) ++ cid ++ r)
+  = RErr InvalidString.
+Proof.
+  intros Hb Hka Hps Hl Hv. unfold connect_decode_with_protocol.
+  erewrite bind_ok by apply read_u8_cons. rewrite Hb.
+  erewrite bind_ok by (apply read_u16_be16; exact Hka).
+  erewrite bind_ok by (apply props_good_rt; exact Hps).
+  erewrite bind_err by (apply read_string_invalid_lp; assumption). reflexivity.
+Qed.
+
+(* the will: what will_decode does after its properties *)
+Lemma will_decode_after qos retain ps t d : props_good WILL_PROPS ps ->
+  will_decode qos retain t (concat (props_enc WILL_PROPS ps) ++ d)
+  = (topic <- read_string ;;
+     topic' <- lift_outcome (name_try topic) ;;
+     payload <- read_bytes ;;
+     if (match pget ps PayloadFormatIndicator with Some (VN 1) => true | _ => false end)
+        && negb (utf8_valid payload)
+     then fail InvalidPayloadFormat
+     else ret {| w_qos := qos; w_retain := retain; w_props := ps; w_topic := topic'; w_payload := payload |}) t d.
+Proof. intros Hps. unfold will_decode. erewrite bind_ok by (apply props_good_rt; exact Hps). reflexivity. Qed.
+
+(* wildcard / NUL in the will topic: found right after the topic is read *)
+Theorem C20_will_topic_5 qos retain ps topic t r : props_good WILL_PROPS ps ->
+  len topic <= 65535 -> utf8_valid topic = true -> name_is_invalid topic = true ->
+  will_decode qos retain t (concat (props_enc WILL_PROPS ps) ++ be16 (len topic mod 65536) ++ topic ++ r)
+  = RErr (InvalidTopicName topic).
+Proof.
+  intros Hps Hl Hv Hi. rewrite will_decode_after by exact Hps.
+  ok_by ltac:(apply read_string_lp; assumption).
+  rewrite (name_try_err topic Hi). reflexivity.
+Qed.
+
+Theorem C20_will_topic_not_utf8_5 qos retain ps topic t r : props_good WILL_PROPS ps ->
+  len topic <= 65535 -> utf8_valid topic = false ->
+  will_decode qos retain t (concat (props_enc WILL_PROPS ps) ++ be16 (len topic mod 65536) ++ topic ++ r)
+  = RErr InvalidString.
+Proof.
+  intros Hps Hl Hv. rewrite will_decode_after by exact Hps.
+  err_by ltac:(apply read_string_invalid_lp; assumption).
+Qed.
+
+(* will payload flagged as UTF-8 (Payload Format Indicator = 1) but not UTF-8 *)
+Theorem C20_will_payload_format_5 qos retain ps topic payload t r : props_good WILL_PROPS ps ->
+  len topic <= 65535 -> utf8_valid topic = true -> name_is_invalid topic = false ->
+  pget ps PayloadFormatIndicator = Some (VN 1) -> len payload <= 65535 -> utf8_valid payload = false ->
+  will_decode qos retain t (concat (props_enc WILL_PROPS ps) ++ be16 (len topic mod 65536) ++ topic
+                              ++ be16 (len payload mod 65536) ++ payload ++ r)
+  = RErr InvalidPayloadFormat.
+Proof.
+  intros Hps Hl Hv Hi Hf Hlp Hvp. rewrite will_decode_after by exact Hps.
+  ok_by ltac:(apply read_string_lp; assumption).
+  rewrite (name_try_ok topic Hi). cbn [lift_outcome]. rewrite bind_ret.
+  ok_by ltac:(apply read_bytes_lp; assumption).
+  rewrite Hf, Hvp. reflexivity.
+Qed.
+
+(* -- whole frames -- *)
+Lemma connect_frame5_err prof n d t e : n < VMAX ->
+  connect_decode_with_protocol (V3.mk_header PConnect n) V500 t d = RErr e ->
+  F5.dec_async prof t (16 :: write_var_int n ++ concat (protocol_enc V500) ++ d) = RErr e.
+Proof. intros Hn He. rewrite connect_frame5 by exact Hn. apply bind_err. exact He. Qed.
+
+Theorem C20_connect_reserved_flag_5_frame prof n flags : n < VMAX -> bit flags 0 = true ->
+  forall t rest, F5.dec_async prof t (16 :: write_var_int n ++ concat (protocol_enc V500) ++ flags :: rest)
+                 = RErr (InvalidConnectFlags flags).
+Proof. intros Hn Hb t rest. apply connect_frame5_err; [exact Hn|]. apply C20_connect_reserved_flag_5; exact Hb. Qed.
+
+Theorem C20_connect_will_qos_without_will_5_frame prof n flags ka ps cid : n < VMAX ->
+  bit flags 0 = false -> ka < 65536 -> props_good CONNECT_PROPS ps -> len cid <= 65535 -> utf8_valid cid = true ->
+  bit flags 2 = false -> (flags / 8) mod 4 <> 0 ->
+  forall t rest, F5.dec_async prof t (16 :: write_var_int n ++ concat (protocol_enc V500)
+      ++ flags :: be16 ka ++ concat (props_enc CONNECT_PROPS ps) ++ be16 (len cid mod 65536) ++ cid ++ rest)
+    = RErr (InvalidConnectFlags flags).
+Proof.
+  intros Hn Hb Hka Hps Hl Hv Hw Hq t rest. apply connect_frame5_err; [exact Hn|].
+  apply C20_connect_will_qos_without_will_5; assumption.
+Qed.
+
+Theorem C20_connect_will_qos3_5_frame prof n flags ka ps cid : n < VMAX ->
+  bit flags 0 = false -> ka < 65536 -> props_good CONNECT_PROPS ps -> len cid <= 65535 -> utf8_valid cid = true ->
+  bit flags 2 = true -> (flags / 8) mod 4 = 3 ->
+  forall t rest, F5.dec_async prof t (16 :: write_var_int n ++ concat (protocol_enc V500)
+      ++ flags :: be16 ka ++ concat (props_enc CONNECT_PROPS ps) ++ be16 (len cid mod 65536) ++ cid ++ rest)
+    = RErr (InvalidQos 3).
+Proof.
+  intros Hn Hb Hka Hps Hl Hv Hw Hq t rest. apply connect_frame5_err; [exact Hn|].
+  apply C20_connect_will_qos3_5; assumption.
+Qed.
+
+Theorem C20_connect_client_id_not_utf8_5_frame prof n flags ka ps cid : n < VMAX ->
+  bit flags 0 = false -> ka < 65536 -> props_good CONNECT_PROPS ps -> len cid <= 65535 -> utf8_valid cid = false ->
+  forall t rest, F5.dec_async prof t (16 :: write_var_int n ++ concat (protocol_enc V500)
+      ++ flags :: be16 ka ++ concat (props_enc CONNECT_PROPS ps) ++ be16 (len cid mod 65536) ++ cid ++ rest)
+    = RErr InvalidString.
+Proof.
+  intros Hn Hb Hka Hps Hl Hv t rest. apply connect_frame5_err; [exact Hn|].
+  apply C20_connect_client_id_not_utf8_5; assumption.
+Qed.
+
+(* a fault inside the will: everything before the will is valid *)
+Lemma connect_will_frame5 prof n flags ka ps cid d e t : n < VMAX ->
+  bit flags 0 = false -> ka < 65536 -> props_good CONNECT_PROPS ps -> len cid <= 65535 -> utf8_valid cid = true ->
+  bit flags 2 = true -> (flags / 8) mod 4 < 3 ->
+  will_decode ((flags / 8) mod 4) (bit flags 5) t d = RErr e ->
+  F5.dec_async prof t (16 :: write_var_int n ++ concat (protocol_enc V500)
+      ++ flags :: be16 ka ++ concat (props_enc CONNECT_PROPS ps) ++ be16 (len cid mod 65536) ++ cid ++ d) = RErr e.
+Proof.
+  intros Hn Hb Hka Hps Hl Hv Hw Hq He. apply connect_frame5_err; [exact Hn|].
+  rewrite connect5_prefix by assumption. unfold connect5_after. rewrite Hw. unfold qos_of_u8.
+  destruct (N.ltb_spec ((flags / 8) mod 4) 3) as [_|Hge]; [|lia]. cbn [lift_outcome].
+  rewrite ?V3RT.bind_assoc, bind_ret. err_by ltac:(exact He).
+Qed.
+
+Theorem C20_connect_will_topic_5_frame prof n flags ka ps cid wps topic : n < VMAX ->
+  bit flags 0 = false -> ka < 65536 -> props_good CONNECT_PROPS ps -> len cid <= 65535 -> utf8_valid cid = true ->
+  bit flags 2 = true -> (flags / 8) mod 4 < 3 -> props_good WILL_PROPS wps ->
+  len topic <= 65535 -> utf8_valid topic = true -> name_is_invalid topic = true ->
+  forall t rest, F5.dec_async prof t (16 :: write_var_int n ++ concat (protocol_enc V500)
+      ++ flags :: be16 ka ++ concat (props_enc CONNECT_PROPS ps) ++ be16 (len cid mod 65536) ++ cid
+      ++ concat (props_enc WILL_PROPS wps) ++ be16 (len topic mod 65536) ++ topic ++ rest)
+    = RErr (InvalidTopicName topic).
+Proof.
+  intros Hn Hb Hka Hps Hl Hv Hw Hq Hwps Hlt Hvt Hi t rest. apply connect_will_frame5; try assumption.
+  apply C20_will_topic_5; assumption.
+Qed.
+
+Theorem C20_connect_will_payload_format_5_frame prof n flags ka ps cid wps topic payload : n < VMAX ->
+  bit flags 0 = false -> ka < 65536 -> props_good CONNECT_PROPS ps -> len cid <= 65535 -> utf8_valid cid = true ->
+  bit flags 2 = true -> (flags / 8) mod 4 < 3 -> props_good WILL_PROPS wps ->
+  len topic <= 65535 -> utf8_valid topic = true -> name_is_invalid topic = false ->
+  pget wps PayloadFormatIndicator = Some (VN 1) -> len payload <= 65535 -> utf8_valid payload = false ->
+  forall t rest, F5.dec_async prof t (16 :: write_var_int n ++ concat (protocol_enc V500)
+      ++ flags :: be16 ka ++ concat (props_enc CONNECT_PROPS ps) ++ be16 (len cid mod 65536) ++ cid
+      ++ concat (props_enc WILL_PROPS wps) ++ be16 (len topic mod 65536) ++ topic
+      ++ be16 (len payload mod 65536) ++ payload ++ rest)
+    = RErr InvalidPayloadFormat.
+Proof.
+  intros Hn Hb Hka Hps Hl Hv Hw Hq Hwps Hlt Hvt Hi Hf Hlp Hvp t rest. apply connect_will_frame5; try assumption.
+  apply C20_will_payload_format_5; assumption.
+Qed.
+
+Theorem C20_connect_protocol_5_frame prof n name lvl : n < VMAX -> len name <= 65535 ->
+  ~ protocol_known name lvl -> utf8_valid name = true ->
+  forall t rest, F5.dec_async prof t (16 :: write_var_int n ++ be16 (len name) ++ name ++ lvl :: rest)
+                 = RErr (InvalidProtocol name lvl).
+Proof.
+  intros Hn Hl Hk Hv t rest. rewrite (frame5 prof 16 n _ t _ Hn (connect_header n)). unfold body_decode_async.
+  cbn [h_typ V3.mk_header]. unfold connect_decode.
+  err_by ltac:(apply C20_protocol_decode; assumption).
+Qed.
+
+Theorem C20_connect_protocol_not_utf8_5_frame prof n name lvl : n < VMAX -> len name <= 65535 ->
+  ~ protocol_known name lvl -> utf8_valid name = false ->
+  forall t rest, F5.dec_async prof t (16 :: write_var_int n ++ be16 (len name) ++ name ++ lvl :: rest)
+                 = RErr InvalidString.
+Proof.
+  intros Hn Hl Hk Hv t rest. rewrite (frame5 prof 16 n _ t _ Hn (connect_header n)). unfold body_decode_async.
+  cbn [h_typ V3.mk_header]. unfold connect_decode.
+  err_by ltac:(apply C20_protocol_decode_not_utf8; assumption).
+Qed.
+
+(* MQTT 3.1 / 3.1.1 name and level on a v5 decoder *)
+Theorem C20_connect_other_family_5_frame prof n pr : n < VMAX -> pr <> V500 ->
+  forall t rest, F5.dec_async prof t (16 :: write_var_int n ++ concat (protocol_enc pr) ++ rest)
+                 = RErr (UnexpectedProtocol pr).
+Proof.
+  intros Hn Hp t rest. rewrite (frame5 prof 16 n _ t _ Hn (connect_header n)). unfold body_decode_async.
+  cbn [h_typ V3.mk_header]. unfold connect_decode.
+  ok_by ltac:(apply V3RT.protocol_rt). err_by ltac:(apply C20_unexpected_protocol_5; exact Hp).
+Qed.
+
+(* three front-ends *)
+Theorem C20_connect_reserved_flag_5_all prof flags x : bit flags 0 = true ->
+  let body := concat (protocol_enc V500) ++ flags :: x in
+  len body < VMAX -> classified5 prof (16 :: write_var_int (len body) ++ body) (InvalidConnectFlags flags).
+Proof.
+  intros Hb body Hn. apply classify5; [exact Hn|reflexivity|]. intros t sfx.
+  unfold body. rewrite <- !app_assoc. cbn [app]. apply C20_connect_reserved_flag_5_frame; assumption.
+Qed.
+
+Theorem C20_connect_will_qos_without_will_5_all prof flags ka ps cid x :
+  bit flags 0 = false -> ka < 65536 -> props_good CONNECT_PROPS ps -> len cid <= 65535 -> utf8_valid cid = true ->
+  bit flags 2 = false -> (flags / 8) mod 4 <> 0 ->
+  let body := concat (protocol_enc V500) ++ flags :: be16 ka ++ concat (props_enc CONNECT_PROPS ps)
+              ++ be16 (len cid mod 65536) ++ cid ++ x in
+  len body < VMAX -> classified5 prof (16 :: write_var_int (len body) ++ body) (InvalidConnectFlags flags).
+Proof.
+  intros Hb Hka Hps Hl Hv Hw Hq body Hn. apply classify5; [exact Hn|reflexivity|]. intros t sfx.
+  unfold body. rewrite <- !app_assoc. cbn [app]. rewrite <- !app_assoc.
+  apply C20_connect_will_qos_without_will_5_frame; assumption.
+Qed.
+
+Theorem C20_connect_protocol_5_all prof name lvl x : len name <= 65535 ->
+  ~ protocol_known name lvl -> utf8_valid name = true ->
+  let body := be16 (len name) ++ name ++ lvl :: x in
+  len body < VMAX -> classified5 prof (16 :: write_var_int (len body) ++ body) (InvalidProtocol name lvl).
+Proof.
+  intros Hl Hk Hv body Hn. apply classify5; [exact Hn|reflexivity|]. intros t sfx.
+  unfold body. rewrite <- !app_assoc. cbn [app]. apply C20_connect_protocol_5_frame; assumption.
+Qed.
+
+Theorem C20_connect_other_family_5_all prof pr x : pr <> V500 ->
+  let body := concat (protocol_enc pr) ++ x in
+  len body < VMAX -> classified5 prof (16 :: write_var_int (len body) ++ body) (UnexpectedProtocol pr).
+Proof.
+  intros Hp body Hn. apply classify5; [exact Hn|reflexivity|]. intros t sfx.
+  unfold body. rewrite <- !app_assoc. apply C20_connect_other_family_5_frame; assumption.
+Qed.
+
+Theorem C20_connect_client_id_not_utf8_5_all prof flags ka ps cid x :
+  bit flags 0 = false -> ka < 65536 -> props_good CONNECT_PROPS ps -> len cid <= 65535 -> utf8_valid cid = false ->
+  let body := concat (protocol_enc V500) ++ flags :: be16 ka ++ concat (props_enc CONNECT_PROPS ps)
+              ++ be16 (len cid mod 65536) ++ cid ++ x in
+  len body < VMAX -> classified5 prof (16 :: write_var_int (len body) ++ body) InvalidString.
+Proof.
+  intros Hb Hka Hps Hl Hv body Hn. apply classify5; [exact Hn|reflexivity|]. intros t sfx.
+  unfold body. rewrite <- !app_assoc. cbn [app]. rewrite <- !app_assoc.
+  apply C20_connect_client_id_not_utf8_5_frame; assumption.
+Qed.
+
+Theorem C20_connect_will_topic_5_all prof flags ka ps cid wps topic x :
+  bit flags 0 = false -> ka < 65536 -> props_good CONNECT_PROPS ps -> len cid <= 65535 -> utf8_valid cid = true ->
+  bit flags 2 = true -> (flags / 8) mod 4 < 3 -> props_good WILL_PROPS wps ->
+  len topic <= 65535 -> utf8_valid topic = true -> name_is_invalid topic = true ->
+  let body := concat (protocol_enc V500) ++ flags :: be16 ka ++ concat (props_enc CONNECT_PROPS ps)
+              ++ be16 (len cid mod 65536) ++ cid
+              ++ concat (props_enc WILL_PROPS wps) ++ be16 (len topic mod 65536) ++ topic ++ x in
+  len body < VMAX -> classified5 prof (16 :: write_var_int (len body) ++ body) (InvalidTopicName topic).
+Proof.
+  intros Hb Hka Hps Hl Hv Hw Hq Hwps Hlt Hvt Hi body Hn. apply classify5; [exact Hn|reflexivity|]. intros t sfx.
+  unfold body. rewrite <- !app_assoc. cbn [app]. rewrite <- !app_assoc.
+  apply C20_connect_will_topic_5_frame; assumption.
+Qed.
+
+Theorem C20_connect_will_payload_format_5_all prof flags ka ps cid wps topic payload x :
+  bit flags 0 = false -> ka < 65536 -> props_good CONNECT_PROPS ps -> len cid <= 65535 -> utf8_valid cid = true ->
+  bit flags 2 = true -> (flags / 8) mod 4 < 3 -> props_good WILL_PROPS wps ->
+  len topic <= 65535 -> utf8_valid topic = true -> name_is_invalid topic = false ->
+  pget wps PayloadFormatIndicator = Some (VN 1) -> len payload <= 65535 -> utf8_valid payload = false ->
+  let body := concat (protocol_enc V500) ++ flags :: be16 ka ++ concat (props_enc CONNECT_PROPS ps)
+              ++ be16 (len cid mod 65536) ++ cid
+              ++ concat (props_enc WILL_PROPS wps) ++ be16 (len topic mod 65536) ++ topic
+              ++ be16 (len payload mod 65536) ++ payload ++ x in
+  len body < VMAX -> classified5 prof (16 :: write_var_int (len body) ++ body) InvalidPayloadFormat.
+Proof.
+  intros Hb Hka Hps Hl Hv Hw Hq Hwps Hlt Hvt Hi Hf Hlp Hvp body Hn.
+  apply classify5; [exact Hn|reflexivity|]. intros t sfx.
+  unfold body. rewrite <- !app_assoc. cbn [app]. rewrite <- !app_assoc.
+  apply C20_connect_will_payload_format_5_frame; assumption.
+Qed.
+
+(* ------------------------------------------------------------------------------------ *)
+(* (e) SUBSCRIBE / UNSUBSCRIBE: the k-th topic after k valid ones; the empty list       *)
+(* ------------------------------------------------------------------------------------ *)
+Definition topic_ok5 (x : tfilter * subopts) : bool := let '(f, o) := x in filter_ok f && I5.subopts_inv o.
+
+Definition sub_item5 (x : tfilter * subopts) : bytes :=
+  be16 (len (ftext (fst x)) mod 65536) ++ ftext (fst x) ++ [subopts_to_u8 (snd x)].
+
+Lemma sub_enc5_cons tf o ts : concat (sub_enc5 ((tf, o) :: ts)) = sub_item5 (tf, o) ++ concat (sub_enc5 ts).
+Proof.
+  unfold sub_enc5, sub_item5. cbn [flat_map fst snd]. rewrite concat_app. cbn [concat].
+  rewrite app_nil_r, <- !app_assoc. reflexivity.
+Qed.
+
+Lemma subscribe_loop_step5 prof f rl acc tf o t d : filter_ok tf = true -> I5.subopts_inv o = true ->
+  3 + len (ftext tf) <= rl ->
+  subscribe_loop prof (S f) rl acc t (sub_item5 (tf, o) ++ d)
+  = subscribe_loop prof f (rl - (3 + len (ftext tf))) ((tf, o) :: acc) t d.
+Proof.
+  intros Hf Ho Hl. cbn [subscribe_loop]. destruct (N.eqb_spec rl 0) as [E|_]; [lia|].
+  unfold sub_item5. cbn [fst snd]. rewrite <- !app_assoc. cbn [app].
+  ok_by ltac:(apply (V5RT.filter_read_ok filter_profile_indep); exact Hf).
+  ok_by ltac:(apply read_u8_cons).
+  rewrite (subopts_rt o Ho). cbn [lift_outcome]. rewrite bind_ret.
+  ok_by ltac:(apply checked_sub_ok; lia). reflexivity.
+Qed.
+
+Lemma subscribe_loop_skip5 prof t d : forall topics fuel rl acc,
+  forallb topic_ok5 topics = true -> topics_len5 topics <= rl -> (length topics <= fuel)%nat ->
+  exists acc', subscribe_loop prof fuel rl acc t (concat (sub_enc5 topics) ++ d)
+               = subscribe_loop prof (fuel - length topics) (rl - topics_len5 topics) acc' t d.
+Proof.
+  induction topics as [|[tf o] topics IH]; intros fuel rl acc Hok Hl Hf.
+  - exists acc. cbn [sub_enc5 flat_map concat app length]. change (topics_len5 []) with 0.
+    rewrite N.sub_0_r, Nat.sub_0_r. reflexivity.
+  - cbn [forallb topic_ok5] in Hok. apply andb_true_iff in Hok as [Hx Hok]. apply andb_true_iff in Hx as [Hfo Ho].
+    rewrite topics_len5_cons in *. rewrite sub_enc5_cons, <- app_assoc.
+    destruct fuel as [|f]; [cbn [length] in Hf; lia|].
+    rewrite subscribe_loop_step5 by (try assumption; lia).
+    destruct (IH f (rl - (3 + len (ftext tf))) ((tf, o) :: acc) Hok) as [acc' E]; [lia|cbn [length] in Hf; lia|].
+    exists acc'. rewrite E. cbn [length Nat.sub]. f_equal. lia.
+Qed.
+
+Lemma subscribe_loop_bad_filter5 prof f rl acc t d e : rl <> 0 -> V3.filter_read prof t d = RErr e ->
+  subscribe_loop prof (S f) rl acc t d = RErr e.
+Proof.
+  intros Hrl He. cbn [subscribe_loop]. destruct (N.eqb_spec rl 0) as [E|_]; [contradiction|].
+  apply bind_err. exact He.
+Qed.
+
+Lemma subscribe_loop_bad_opts5 prof f rl acc tf b t r : rl <> 0 -> filter_ok tf = true ->
+  64 <= b \/ b mod 4 = 3 \/ (b / 16) mod 4 = 3 ->
+  subscribe_loop prof (S f) rl acc t (be16 (len (ftext tf) mod 65536) ++ ftext tf ++ b :: r)
+  = RErr (InvalidSubscriptionOption b).
+Proof.
+  intros Hrl Hf Hb. cbn [subscribe_loop]. destruct (N.eqb_spec rl 0) as [E|_]; [contradiction|].
+  ok_by ltac:(apply (V5RT.filter_read_ok filter_profile_indep); exact Hf).
+  ok_by ltac:(apply read_u8_cons).
+  rewrite (C20_subopts b Hb). reflexivity.
+Qed.
+
+(* SUBSCRIBE frame: header, packet identifier, valid properties, k valid entries, then `d` *)
+Lemma subscribe_frame_kth5 prof n pid ps topics d e t : n < VMAX -> pid_ok pid = true ->
+  props_good SUBSCRIBE_PROPS ps -> forallb topic_ok5 topics = true ->
+  2 + clen (props_enc SUBSCRIBE_PROPS ps) + topics_len5 topics < n ->
+  (forall f rl acc, rl <> 0 -> subscribe_loop prof (S f) rl acc t d = RErr e) ->
+  F5.dec_async prof t (130 :: write_var_int n ++ be16 pid ++ concat (props_enc SUBSCRIBE_PROPS ps)
+                         ++ concat (sub_enc5 topics) ++ d) = RErr e.
+Proof.
+  intros Hn Hp Hps Hok Hl Hbad. destruct (props_good_len _ _ Hps) as (pl & Hpl & Hcl).
+  rewrite (frame5 prof 130 n (V3.mk_header PSubscribe n) t _ Hn eq_refl). unfold body_decode_async.
+  cbn [h_typ V3.mk_header]. unfold subscribe_decode. cbn [h_typ h_rl V3.mk_header].
+  ok_by ltac:(apply pid_read_be16; exact Hp).
+  ok_by ltac:(apply props_good_rt; exact Hps).
+  rewrite Hpl. cbn [lift_outcome]. rewrite ?V3RT.bind_assoc, bind_ret.
+  ok_by ltac:(apply checked_sub_ok; lia).
+  destruct (N.eqb_spec (n - (2 + pl)) 0) as [E|_]; [lia|].
+  apply bind_err. cbv beta. apply bind_err.
+  destruct (subscribe_loop_skip5 prof t d topics (S (length (concat (sub_enc5 topics) ++ d))) (n - (2 + pl)) [] Hok)
+    as [acc' E]; [lia| |].
+  { rewrite app_length. pose proof (sub_enc5_count topics). lia. }
+  rewrite E.
+  assert (Hfu : exists f, (S (length (concat (sub_enc5 topics) ++ d)) - length topics)%nat = S f).
+  { rewrite app_length. pose proof (sub_enc5_count topics).
+    exists (length (concat (sub_enc5 topics)) + length d - length topics)%nat. lia. }
+  destruct Hfu as [f ->]. apply Hbad. lia.
+Qed.
+
+Theorem C20_subscribe_options_5 prof n pid ps topics tf b : n < VMAX -> pid_ok pid = true ->
+  props_good SUBSCRIBE_PROPS ps -> forallb topic_ok5 topics = true ->
+  2 + clen (props_enc SUBSCRIBE_PROPS ps) + topics_len5 topics < n ->
+  filter_ok tf = true -> 64 <= b \/ b mod 4 = 3 \/ (b / 16) mod 4 = 3 ->
+  forall t rest, F5.dec_async prof t (130 :: write_var_int n ++ be16 pid ++ concat (props_enc SUBSCRIBE_PROPS ps)
+      ++ concat (sub_enc5 topics) ++ be16 (len (ftext tf) mod 65536) ++ ftext tf ++ b :: rest)
+    = RErr (InvalidSubscriptionOption b).
+Proof.
+  intros Hn Hp Hps Hok Hl Hf Hb t rest. apply subscribe_frame_kth5; try assumption.
+  intros f rl acc Hrl. apply subscribe_loop_bad_opts5; assumption.
+Qed.
+
+Theorem C20_subscribe_filter_5 prof n pid ps topics s : n < VMAX -> pid_ok pid = true ->
+  props_good SUBSCRIBE_PROPS ps -> forallb topic_ok5 topics = true ->
+  2 + clen (props_enc SUBSCRIBE_PROPS ps) + topics_len5 topics < n ->
+  len s <= 65535 -> utf8_valid s = true -> Spec.topic_filter_ok s = false ->
+  forall t rest, F5.dec_async prof t (130 :: write_var_int n ++ be16 pid ++ concat (props_enc SUBSCRIBE_PROPS ps)
+      ++ concat (sub_enc5 topics) ++ be16 (len s mod 65536) ++ s ++ rest) = RErr (InvalidTopicFilter s).
+Proof.
+  intros Hn Hp Hps Hok Hl Hs Hv Hf t rest. apply subscribe_frame_kth5; try assumption.
+  intros f rl acc Hrl. apply subscribe_loop_bad_filter5; [exact Hrl|]. apply C20_filter_read; assumption.
+Qed.
+
+Theorem C20_subscribe_filter_not_utf8_5 prof n pid ps topics s : n < VMAX -> pid_ok pid = true ->
+  props_good SUBSCRIBE_PROPS ps -> forallb topic_ok5 topics = true ->
+  2 + clen (props_enc SUBSCRIBE_PROPS ps) + topics_len5 topics < n ->
+  len s <= 65535 -> utf8_valid s = false ->
+  forall t rest, F5.dec_async prof t (130 :: write_var_int n ++ be16 pid ++ concat (props_enc SUBSCRIBE_PROPS ps)
+      ++ concat (sub_enc5 topics) ++ be16 (len s mod 65536) ++ s ++ rest) = RErr InvalidString.
+Proof.
+  intros Hn Hp Hps Hok Hl Hs Hv t rest. apply subscribe_frame_kth5; try assumption.
+  intros f rl acc Hrl. apply subscribe_loop_bad_filter5; [exact Hrl|].
+  unfold V3.filter_read. apply bind_err. apply read_string_invalid_lp; assumption.
+Qed.
+
+Theorem C20_subscribe_empty_5 prof pid ps : pid_ok pid = true -> props_good SUBSCRIBE_PROPS ps ->
+  2 + clen (props_enc SUBSCRIBE_PROPS ps) < VMAX ->
+  forall t rest, F5.dec_async prof t (130 :: write_var_int (2 + clen (props_enc SUBSCRIBE_PROPS ps))
+      ++ be16 pid ++ concat (props_enc SUBSCRIBE_PROPS ps) ++ rest) = RErr EmptySubscription.
+Proof.
+  intros Hp Hps Hn t rest. destruct (props_good_len _ _ Hps) as (pl & Hpl & Hcl). rewrite Hcl in *.
+  rewrite (frame5 prof 130 _ (V3.mk_header PSubscribe (2 + pl)) t _ Hn eq_refl). unfold body_decode_async.
+  cbn [h_typ V3.mk_header]. unfold subscribe_decode. cbn [h_typ h_rl V3.mk_header].
+  ok_by ltac:(apply pid_read_be16; exact Hp).
+  ok_by ltac:(apply props_good_rt; exact Hps).
+  rewrite Hpl. cbn [lift_outcome]. rewrite ?V3RT.bind_assoc, bind_ret.
+  ok_by ltac:(apply checked_sub_ok; lia).
+  destruct (N.eqb_spec (2 + pl - (2 + pl)) 0) as [_|E]; [reflexivity|lia].
+Qed.
+
+(* -- UNSUBSCRIBE -- *)
+Definition unsub_item5 (tf : tfilter) : bytes := be16 (len (ftext tf) mod 65536) ++ ftext tf.
+
+Lemma unsub_enc5_cons tf ts : concat (unsub_enc5 (tf :: ts)) = unsub_item5 tf ++ concat (unsub_enc5 ts).
+Proof.
+  unfold unsub_enc5, unsub_item5. cbn [flat_map]. rewrite concat_app. cbn [concat].
+  rewrite app_nil_r, <- !app_assoc. reflexivity.
+Qed.
+
+Lemma unsubscribe_loop_step5 prof f rl acc tf t d : filter_ok tf = true -> 2 + len (ftext tf) <= rl ->
+  unsubscribe_loop prof (S f) rl acc t (unsub_item5 tf ++ d)
+  = unsubscribe_loop prof f (rl - (2 + len (ftext tf))) (tf :: acc) t d.
+Proof.
+  intros Hf Hl. cbn [unsubscribe_loop]. destruct (N.eqb_spec rl 0) as [E|_]; [lia|].
+  unfold unsub_item5. rewrite <- !app_assoc.
+  ok_by ltac:(apply (V5RT.filter_read_ok filter_profile_indep); exact Hf).
+  ok_by ltac:(apply checked_sub_ok; lia). reflexivity.
+Qed.
+
+Lemma unsubscribe_loop_skip5 prof t d : forall topics fuel rl acc,
+  forallb filter_ok topics = true -> utopics_len5 topics <= rl -> (length topics <= fuel)%nat ->
+  exists acc', unsubscribe_loop prof fuel rl acc t (concat (unsub_enc5 topics) ++ d)
+               = unsubscribe_loop prof (fuel - length topics) (rl - utopics_len5 topics) acc' t d.
+Proof.
+  induction topics as [|tf topics IH]; intros fuel rl acc Hok Hl Hf.
+  - exists acc. cbn [unsub_enc5 flat_map concat app length]. change (utopics_len5 []) with 0.
+    rewrite N.sub_0_r, Nat.sub_0_r. reflexivity.
+  - cbn [forallb] in Hok. apply andb_true_iff in Hok as [Hfo Hok].
+    rewrite utopics_len5_cons in *. rewrite unsub_enc5_cons, <- app_assoc.
+    destruct fuel as [|f]; [cbn [length] in Hf; lia|].
+    rewrite unsubscribe_loop_step5 by (try assumption; lia).
+    destruct (IH f (rl - (2 + len (ftext tf))) (tf :: acc) Hok) as [acc' E]; [lia|cbn [length] in Hf; lia|].
+    exists acc'. rewrite E. cbn [length Nat.sub]. f_equal. lia.
+Qed.
+
+Lemma unsubscribe_loop_bad_filter5 prof f rl acc t d e : rl <> 0 -> V3.filter_read prof t d = RErr e ->
+  unsubscribe_loop prof (S f) rl acc t d = RErr e.
+Proof.
+  intros Hrl He. cbn [unsubscribe_loop]. destruct (N.eqb_spec rl 0) as [E|_]; [contradiction|].
+  apply bind_err. exact He.
+Qed.
+
+Lemma unsubscribe_frame_kth5 prof n pid ps topics d e t : n < VMAX -> pid_ok pid = true ->
+  props_good UNSUBSCRIBE_PROPS ps -> forallb filter_ok topics = true ->
+  2 + clen (props_enc UNSUBSCRIBE_PROPS ps) + utopics_len5 topics < n ->
+  V3.filter_read prof t d = RErr e ->
+  F5.dec_async prof t (162 :: write_var_int n ++ be16 pid ++ concat (props_enc UNSUBSCRIBE_PROPS ps)
+                         ++ concat (unsub_enc5 topics) ++ d) = RErr e.
+Proof.
+  intros Hn Hp Hps Hok Hl Hbad.
+  assert (Hcl : clen (props_enc UNSUBSCRIBE_PROPS ps)
+                = props_body_len UNSUBSCRIBE_PROPS ps + width (props_body_len UNSUBSCRIBE_PROPS ps)).
+  { destruct Hps as (_ & Hi & _ & Hb). apply (props_enc_len _ _ Hi Hb). }
+  rewrite (frame5 prof 162 n (V3.mk_header PUnsubscribe n) t _ Hn eq_refl). unfold body_decode_async.
+  cbn [h_typ V3.mk_header]. unfold unsubscribe_decode. cbn [h_typ h_rl V3.mk_header].
+  ok_by ltac:(apply pid_read_be16; exact Hp).
+  ok_by ltac:(apply props_good_rt_full; exact Hps). cbv iota.
+  ok_by ltac:(apply checked_sub_ok; lia).
+  match goal with |- context [?a =? 0] => destruct (N.eqb_spec a 0) as [E|_]; [lia|] end.
+  apply bind_err. cbv beta. apply bind_err.
+  match goal with |- unsubscribe_loop _ _ ?rl0 _ _ _ = _ =>
+    destruct (unsubscribe_loop_skip5 prof t d topics (S (length (concat (unsub_enc5 topics) ++ d))) rl0 [] Hok)
+      as [acc' E]; [lia| |] end.
+  { rewrite app_length. pose proof (unsub_enc5_count topics). lia. }
+  rewrite E.
+  assert (Hfu : exists f, (S (length (concat (unsub_enc5 topics) ++ d)) - length topics)%nat = S f).
+  { rewrite app_length. pose proof (unsub_enc5_count topics).
+    exists (length (concat (unsub_enc5 topics)) + length d - length topics)%nat. lia. }
+  destruct Hfu as [f ->]. apply unsubscribe_loop_bad_filter5; [lia|exact Hbad].
+Qed.
+
+Theorem C20_unsubscribe_filter_5 prof n pid ps topics s : n < VMAX -> pid_ok pid = true ->
+  props_good UNSUBSCRIBE_PROPS ps -> forallb filter_ok topics = true ->
+  2 + clen (props_enc UNSUBSCRIBE_PROPS ps) + utopics_len5 topics < n ->
+  len s <= 65535 -> utf8_valid s = true -> Spec.topic_filter_ok s = false ->
+  forall t rest, F5.dec_async prof t (162 :: write_var_int n ++ be16 pid ++ concat (props_enc UNSUBSCRIBE_PROPS ps)
+      ++ concat (unsub_enc5 topics) ++ be16 (len s mod 65536) ++ s ++ rest) = RErr (InvalidTopicFilter s).
+Proof.
+  intros Hn Hp Hps Hok Hl Hs Hv Hf t rest. apply unsubscribe_frame_kth5; try assumption.
+  apply C20_filter_read; assumption.
+Qed.
+
+Theorem C20_unsubscribe_filter_not_utf8_5 prof n pid ps topics s : n < VMAX -> pid_ok pid = true ->
+  props_good UNSUBSCRIBE_PROPS ps -> forallb filter_ok topics = true ->
+  2 + clen (props_enc UNSUBSCRIBE_PROPS ps) + utopics_len5 topics < n ->
+  len s <= 65535 -> utf8_valid s = false ->
+  forall t rest, F5.dec_async prof t (162 :: write_var_int n ++ be16 pid ++ concat (props_enc UNSUBSCRIBE_PROPS ps)
+      ++ concat (unsub_enc5 topics) ++ be16 (len s mod 65536) ++ s ++ rest) = RErr InvalidString.
+Proof.
+  intros Hn Hp Hps Hok Hl Hs Hv t rest. apply unsubscribe_frame_kth5; try assumption.
+  unfold V3.filter_read. apply bind_err. apply read_string_invalid_lp; assumption.
+Qed.
+
+Theorem C20_unsubscribe_empty_5 prof pid ps : pid_ok pid = true -> props_good UNSUBSCRIBE_PROPS ps ->
+  2 + clen (props_enc UNSUBSCRIBE_PROPS ps) < VMAX ->
+  forall t rest, F5.dec_async prof t (162 :: write_var_int (2 + clen (props_enc UNSUBSCRIBE_PROPS ps))
+      ++ be16 pid ++ concat (props_enc UNSUBSCRIBE_PROPS ps) ++ rest) = RErr EmptySubscription.
+Proof.
+  intros Hp Hps Hn t rest.
+  assert (Hcl : clen (props_enc UNSUBSCRIBE_PROPS ps)
+                = props_body_len UNSUBSCRIBE_PROPS ps + width (props_body_len UNSUBSCRIBE_PROPS ps)).
+  { destruct Hps as (_ & Hi & _ & Hb). apply (props_enc_len _ _ Hi Hb). }
+  rewrite (frame5 prof 162 _ (V3.mk_header PUnsubscribe _) t _ Hn eq_refl). unfold body_decode_async.
+  cbn [h_typ V3.mk_header]. unfold unsubscribe_decode. cbn [h_typ h_rl V3.mk_header].
+  ok_by ltac:(apply pid_read_be16; exact Hp).
+  ok_by ltac:(apply props_good_rt_full; exact Hps). cbv iota.
+  ok_by ltac:(apply checked_sub_ok; lia).
+  match goal with |- context [?a =? 0] => destruct (N.eqb_spec a 0) as [_|E]; [reflexivity|lia] end.
+Qed.
+
+(* -- three front-ends -- *)
+Lemma len_concat_clen (cs : list bytes) : len (concat cs) = clen cs.
+Proof. reflexivity. Qed.
+
+Theorem C20_subscribe_options_5_all prof pid ps topics tf b x : pid_ok pid = true ->
+  props_good SUBSCRIBE_PROPS ps -> forallb topic_ok5 topics = true ->
+  filter_ok tf = true -> 64 <= b \/ b mod 4 = 3 \/ (b / 16) mod 4 = 3 ->
+  let body := be16 pid ++ concat (props_enc SUBSCRIBE_PROPS ps) ++ concat (sub_enc5 topics)
+              ++ be16 (len (ftext tf) mod 65536) ++ ftext tf ++ b :: x in
+  len body < VMAX -> classified5 prof (130 :: write_var_int (len body) ++ body) (InvalidSubscriptionOption b).
+Proof.
+  intros Hp Hps Hok Hf Hb body Hn. apply classify5; [exact Hn|reflexivity|]. intros t sfx.
+  unfold body. rewrite <- !app_assoc. cbn [app].
+  apply C20_subscribe_options_5; try assumption.
+  unfold body. rewrite !len_app, len_be16, !len_concat_clen, sub_enc5_len, len_cons. lia.
+Qed.
+
+Theorem C20_subscribe_filter_5_all prof pid ps topics s x : pid_ok pid = true ->
+  props_good SUBSCRIBE_PROPS ps -> forallb topic_ok5 topics = true ->
+  len s <= 65535 -> utf8_valid s = true -> Spec.topic_filter_ok s = false ->
+  let body := be16 pid ++ concat (props_enc SUBSCRIBE_PROPS ps) ++ concat (sub_enc5 topics)
+              ++ be16 (len s mod 65536) ++ s ++ x in
+  len body < VMAX -> classified5 prof (130 :: write_var_int (len body) ++ body) (InvalidTopicFilter s).
+Proof.
+  intros Hp Hps Hok Hs Hv Hf body Hn. apply classify5; [exact Hn|reflexivity|]. intros t sfx.
+  unfold body. rewrite <- !app_assoc.
+  apply C20_subscribe_filter_5; try assumption.
+  unfold body. rewrite !len_app, !len_be16, !len_concat_clen, sub_enc5_len. lia.
+Qed.
+
+Theorem C20_subscribe_empty_5_all prof pid ps : pid_ok pid = true -> props_good SUBSCRIBE_PROPS ps ->
+  let body := be16 pid ++ concat (props_enc SUBSCRIBE_PROPS ps) in
+  len body < VMAX -> classified5 prof (130 :: write_var_int (len body) ++ body) EmptySubscription.
+Proof.
+  intros Hp Hps body Hn.
+  assert (El : len body = 2 + clen (props_enc SUBSCRIBE_PROPS ps)).
+  { unfold body. rewrite len_app, len_be16, len_concat_clen. reflexivity. }
+  apply classify5; [exact Hn|reflexivity|]. intros t sfx. unfold body at 2. rewrite <- !app_assoc. rewrite El.
+  apply C20_subscribe_empty_5; try assumption. rewrite <- El. exact Hn.
+Qed.
+
+Theorem C20_unsubscribe_filter_5_all prof pid ps topics s x : pid_ok pid = true ->
+  props_good UNSUBSCRIBE_PROPS ps -> forallb filter_ok topics = true ->
+  len s <= 65535 -> utf8_valid s = true -> Spec.topic_filter_ok s = false ->
+  let body := be16 pid ++ concat (props_enc UNSUBSCRIBE_PROPS ps) ++ concat (unsub_enc5 topics)
+              ++ be16 (len s mod 65536) ++ s ++ x in
+  len body < VMAX -> classified5 prof (162 :: write_var_int (len body) ++ body) (InvalidTopicFilter s).
+Proof.
+  intros Hp Hps Hok Hs Hv Hf body Hn. apply classify5; [exact Hn|reflexivity|]. intros t sfx.
+  unfold body. rewrite <- !app_assoc.
+  apply C20_unsubscribe_filter_5; try assumption.
+  unfold body. rewrite !len_app, !len_be16, !len_concat_clen, unsub_enc5_len. lia.
+Qed.
+
+Theorem C20_unsubscribe_empty_5_all prof pid ps : pid_ok pid = true -> props_good UNSUBSCRIBE_PROPS ps ->
+  let body := be16 pid ++ concat (props_enc UNSUBSCRIBE_PROPS ps) in
+  len body < VMAX -> classified5 prof (162 :: write_var_int (len body) ++ body) EmptySubscription.
+Proof.
+  intros Hp Hps body Hn.
+  assert (El : len body = 2 + clen (props_enc UNSUBSCRIBE_PROPS ps)).
+  { unfold body. rewrite len_app, len_be16, len_concat_clen. reflexivity. }
+  apply classify5; [exact Hn|reflexivity|]. intros t sfx. unfold body at 2. rewrite <- !app_assoc. rewrite El.
+  apply C20_unsubscribe_empty_5; try assumption. rewrite <- El. exact Hn.
+Qed.
+
+(* ------------------------------------------------------------------------------------ *)
+(* (g) PUBLISH: non-UTF-8 topic; wildcard topic; payload format                          *)
+(* ------------------------------------------------------------------------------------ *)
+Theorem C20_publish_topic_not_utf8_5 prof cb n h s : n < VMAX -> header_new_with cb n = Ok h ->
+  h_typ h = PPublish -> len s <= 65535 -> utf8_valid s = false ->
+  forall t rest, F5.dec_async prof t (cb :: write_var_int n ++ be16 (len s mod 65536) ++ s ++ rest) = RErr InvalidString.
+Proof.
+  intros Hn Hh Ht Hl Hv t rest. rewrite (frame5 prof cb n h t _ Hn Hh). unfold body_decode_async.
+  rewrite Ht. unfold publish_decode. err_by ltac:(apply read_string_invalid_lp; assumption).
+Qed.
+
+Theorem C20_publish_topic_not_utf8_5_all prof cb s x : cb / 16 = 3 -> (cb mod 16 / 2) mod 4 <> 3 ->
+  len s <= 65535 -> utf8_valid s = false ->
+  let body := be16 (len s mod 65536) ++ s ++ x in
+  len body < VMAX -> classified5 prof (cb :: write_var_int (len body) ++ body) InvalidString.
+Proof.
+  intros Hi Hq Hl Hv body Hn. destruct (publish_header cb (len body) Hi Hq) as (h & Hh & Ht & _).
+  apply classify5; [exact Hn|reflexivity|]. intros t sfx. unfold body. rewrite <- !app_assoc.
+  apply (C20_publish_topic_not_utf8_5 prof cb _ h s Hn Hh Ht Hl Hv).
+Qed.
+
+(* what publish_decode does after topic and packet identifier, on what is left of the remaining length *)
+Definition publish5_tail (h : header) (qp : qospid) (topic : bytes) (rl : N) : reader publish :=
+  props <- decode_props (CtxPacket (h_typ h)) PUBLISH_PROPS ;;
+  pl <- lift_outcome (props_len PUBLISH_PROPS props) ;;
+  rl <- checked_sub rl pl ;;
+  payload <-
+    (if 0 <? rl then
+       data <- read_exact rl ;;
+       if (match pget props PayloadFormatIndicator with Some (VN 1) => true | _ => false end)
+          && negb (utf8_valid data)
+       then fail InvalidPayloadFormat else ret data
+     else ret []) ;;
+  topic' <- lift_outcome (name_try topic) ;;
+  ret {| p_dup := h_dup h; p_retain := h_retain h; p_qospid := qp; p_topic := topic';
+         p_props := props; p_payload := payload |}.
+
+Lemma publish5_prefix h topic qp t d : h_qos h = qospid_qos qp -> qospid_ok qp = true ->
+  len topic <= 65535 -> utf8_valid topic = true -> 2 + len topic + V3.qospid_len qp <= h_rl h ->
+  publish_decode h t (be16 (len topic mod 65536) ++ topic ++ concat (V3.qospid_enc qp) ++ d)
+  = publish5_tail h qp topic (h_rl h - (2 + len topic) - V3.qospid_len qp) t d.
+Proof.
+  intros Hq Hqp Hl Hv Hrl. unfold publish_decode. rewrite Hq.
+  ok_by ltac:(apply read_string_lp; assumption).
+  ok_by ltac:(apply checked_sub_ok; lia).
+  destruct qp as [|pid|pid]; cbn [qospid_qos V3.qospid_enc V3.qospid_len qospid_ok concat app] in *.
+  - change (0 =? 0) with true. cbv iota. rewrite bind_ret. cbv beta iota. rewrite N.sub_0_r. reflexivity.
+  - change (1 =? 0) with false. change (1 =? 1) with true. cbv iota.
+    ok_by ltac:(apply checked_sub_ok; lia).
+    rewrite app_nil_r. ok_by ltac:(apply pid_read_be16; exact Hqp).
+    rewrite bind_ret. cbv beta iota. reflexivity.
+  - change (2 =? 0) with false. change (2 =? 1) with false. cbv iota.
+    ok_by ltac:(apply checked_sub_ok; lia).
+    rewrite app_nil_r. ok_by ltac:(apply pid_read_be16; exact Hqp).
+    rewrite bind_ret. cbv beta iota. reflexivity.
+Qed.
+
+(* payload flagged as UTF-8 but not UTF-8: found after the payload is read, before the topic check *)
+Lemma publish5_tail_payload_format h qp topic ps payload rl t r : props_good PUBLISH_PROPS ps ->
+  pget ps PayloadFormatIndicator = Some (VN 1) -> utf8_valid payload = false ->
+  rl = clen (props_enc PUBLISH_PROPS ps) + len payload ->
+  publish5_tail h qp topic rl t (concat (props_enc PUBLISH_PROPS ps) ++ payload ++ r) = RErr InvalidPayloadFormat.
+Proof.
+  intros Hps Hf Hv Hrl. destruct (props_good_len _ _ Hps) as (pl & Hpl & Hcl). rewrite Hcl in Hrl.
+  unfold publish5_tail.
+  ok_by ltac:(apply props_good_rt; exact Hps).
+  rewrite Hpl. cbn [lift_outcome]. rewrite ?V3RT.bind_assoc, bind_ret.
+  ok_by ltac:(apply checked_sub_ok; lia).
+  replace (rl - pl) with (len payload) by lia.
+  destruct (N.ltb_spec 0 (len payload)) as [Hp|Hp].
+  - ok_by ltac:(apply read_exact_app; reflexivity). rewrite Hf, Hv. reflexivity.
+  - assert (payload = []) as -> by (apply len_zero_nil; lia). discriminate Hv.
+Qed.
+
+(* wildcard / NUL in the topic: validated LAST, after properties, payload and payload format *)
+Lemma publish5_tail_topic h qp topic ps payload rl t r : props_good PUBLISH_PROPS ps ->
+  (if payload_flagged ps then utf8_valid payload else true) = true ->
+  name_is_invalid topic = true ->
+  rl = clen (props_enc PUBLISH_PROPS ps) + len payload ->
+  publish5_tail h qp topic rl t (concat (props_enc PUBLISH_PROPS ps) ++ payload ++ r) = RErr (InvalidTopicName topic).
+Proof.
+  intros Hps Hf Hi Hrl. destruct (props_good_len _ _ Hps) as (pl & Hpl & Hcl). rewrite Hcl in Hrl.
+  unfold publish5_tail.
+  ok_by ltac:(apply props_good_rt; exact Hps).
+  rewrite Hpl. cbn [lift_outcome]. rewrite ?V3RT.bind_assoc, bind_ret.
+  ok_by ltac:(apply checked_sub_ok; lia).
+  replace (rl - pl) with (len payload) by lia. rewrite (name_try_err topic Hi).
+  destruct (N.ltb_spec 0 (len payload)) as [Hp|Hp].
+  - ok_by ltac:(apply read_exact_app; reflexivity). rewrite (flag_check_ok _ _ Hf).
+    rewrite bind_ret. reflexivity.
+  - rewrite bind_ret. reflexivity.
+Qed.
+
+Section PublishLate.
+Variables (prof : profile) (cb : N) (topic : bytes) (qp : qospid) (ps : props) (payload : bytes).
+Hypothesis Hi : cb / 16 = 3.
+Hypothesis Hq : (cb mod 16 / 2) mod 4 = qospid_qos qp.
+Hypothesis Hqp : qospid_ok qp = true.
+Hypothesis Hl : len topic <= 65535.
+Hypothesis Hv : utf8_valid topic = true.
+Hypothesis Hps : props_good PUBLISH_PROPS ps.
+
+Let body := be16 (len topic mod 65536) ++ topic ++ concat (V3.qospid_enc qp)
+            ++ concat (props_enc PUBLISH_PROPS ps) ++ payload.
+
+Lemma publish_late e :
+  (forall h rl t r, rl = clen (props_enc PUBLISH_PROPS ps) + len payload ->
+     publish5_tail h qp topic rl t (concat (props_enc PUBLISH_PROPS ps) ++ payload ++ r) = RErr e) ->
+  is_io e = false -> len body < VMAX -> classified5 prof (cb :: write_var_int (len body) ++ body) e.
+Proof.
+  intros Htail He Hn.
+  assert (Hq3 : (cb mod 16 / 2) mod 4 <> 3) by (rewrite Hq; destruct qp; cbn [qospid_qos]; lia).
+  destruct (publish_header cb (len body) Hi Hq3) as (h & Hh & Ht & Hqh & Hrl).
+  assert (Hlen : len body = 2 + len topic + V3.qospid_len qp + clen (props_enc PUBLISH_PROPS ps) + len payload).
+  { unfold body. rewrite !len_app, len_be16, !len_concat_clen.
+    destruct qp; cbn [V3.qospid_enc V3.qospid_len]; rewrite ?clen_cons, ?clen_nil, ?len_be16; lia. }
+  apply classify5; [exact Hn|exact He|]. intros t sfx.
+  rewrite (frame5 prof cb _ h t _ Hn Hh). unfold body_decode_async. rewrite Ht. apply bind_err.
+  unfold body. rewrite <- !app_assoc.
+  rewrite publish5_prefix; [|congruence|assumption|assumption|assumption|rewrite Hrl; lia].
+  apply Htail. rewrite Hrl. lia.
+Qed.
+
+Theorem C20_publish_payload_format_5_all :
+  pget ps PayloadFormatIndicator = Some (VN 1) -> utf8_valid payload = false -> len body < VMAX ->
+  classified5 prof (cb :: write_var_int (len body) ++ body) InvalidPayloadFormat.
+Proof.
+  intros Hf Hvp. apply publish_late; [|reflexivity]. intros h rl t r Hrl.
+  apply publish5_tail_payload_format; assumption.
+Qed.
+
+Theorem C20_publish_topic_5_all :
+  (if payload_flagged ps then utf8_valid payload else true) = true -> name_is_invalid topic = true ->
+  len body < VMAX -> classified5 prof (cb :: write_var_int (len body) ++ body) (InvalidTopicName topic).
+Proof.
+  intros Hf Hn. apply publish_late; [|reflexivity]. intros h rl t r Hrl.
+  apply publish5_tail_topic; assumption.
+Qed.
+End PublishLate.
+
+(* layer 1 form: through publish_decode *)
+Theorem C20_publish_payload_format_5 h topic qp ps payload t r : h_qos h = qospid_qos qp -> qospid_ok qp = true ->
+  len topic <= 65535 -> utf8_valid topic = true -> props_good PUBLISH_PROPS ps ->
+  pget ps PayloadFormatIndicator = Some (VN 1) -> utf8_valid payload = false ->
+  h_rl h = 2 + len topic + V3.qospid_len qp + clen (props_enc PUBLISH_PROPS ps) + len payload ->
+  publish_decode h t (be16 (len topic mod 65536) ++ topic ++ concat (V3.qospid_enc qp)
+                        ++ concat (props_enc PUBLISH_PROPS ps) ++ payload ++ r) = RErr InvalidPayloadFormat.
+Proof.
+  intros Hq Hqp Hl Hv Hps Hf Hvp Hrl. rewrite publish5_prefix by (try assumption; lia).
+  apply publish5_tail_payload_format; try assumption. lia.
+Qed.
+
+(* ------------------------------------------------------------------------------------ *)
+(* Remaining length too small for the mandatory fields (layer 1, decoder level)         *)
+(* ------------------------------------------------------------------------------------ *)
+Theorem C20_publish_short_topic_5 h topic t r : len topic <= 65535 -> utf8_valid topic = true ->
+  h_rl h < 2 + len topic ->
+  publish_decode h t (be16 (len topic mod 65536) ++ topic ++ r) = RErr InvalidRemainingLength.
+Proof.
+  intros Hl Hv Hrl. unfold publish_decode. ok_by ltac:(apply read_string_lp; assumption).
+  err_by ltac:(apply C20_checked_sub; exact Hrl).
+Qed.
+
+Theorem C20_publish_short_pid_5 h topic t r : len topic <= 65535 -> utf8_valid topic = true ->
+  h_qos h <> 0 -> 2 + len topic <= h_rl h < 2 + len topic + 2 ->
+  publish_decode h t (be16 (len topic mod 65536) ++ topic ++ r) = RErr InvalidRemainingLength.
+Proof.
+  intros Hl Hv Hq Hrl. unfold publish_decode. ok_by ltac:(apply read_string_lp; assumption).
+  ok_by ltac:(apply checked_sub_ok; lia).
+  destruct (N.eqb_spec (h_qos h) 0) as [E|_]; [contradiction|].
+  destruct (h_qos h =? 1); err_by ltac:(apply C20_checked_sub; lia).
+Qed.
+
+(* the properties are longer than what is left of the remaining length *)
+Theorem C20_publish_short_props_5 h topic qp ps t r : h_qos h = qospid_qos qp -> qospid_ok qp = true ->
+  len topic <= 65535 -> utf8_valid topic = true -> props_good PUBLISH_PROPS ps ->
+  2 + len topic + V3.qospid_len qp <= h_rl h < 2 + len topic + V3.qospid_len qp + clen (props_enc PUBLISH_PROPS ps) ->
+  publish_decode h t (be16 (len topic mod 65536) ++ topic ++ concat (V3.qospid_enc qp)
+                        ++ concat (props_enc PUBLISH_PROPS ps) ++ r) = RErr InvalidRemainingLength.
+Proof.
+  intros Hq Hqp Hl Hv Hps Hrl. destruct (props_good_len _ _ Hps) as (pl & Hpl & Hcl). rewrite Hcl in Hrl.
+  rewrite publish5_prefix by (try assumption; lia). unfold publish5_tail.
+  ok_by ltac:(apply props_good_rt; exact Hps).
+  rewrite Hpl. cbn [lift_outcome]. rewrite ?V3RT.bind_assoc, bind_ret.
+  err_by ltac:(apply C20_checked_sub; lia).
+Qed.
+
+Theorem C20_subscribe_short_5 prof h pid ps t r : pid_ok pid = true -> props_good SUBSCRIBE_PROPS ps ->
+  h_rl h < 2 + clen (props_enc SUBSCRIBE_PROPS ps) ->
+  subscribe_decode prof h t (be16 pid ++ concat (props_enc SUBSCRIBE_PROPS ps) ++ r) = RErr InvalidRemainingLength.
+Proof.
+  intros Hp Hps Hrl. destruct (props_good_len _ _ Hps) as (pl & Hpl & Hcl). rewrite Hcl in Hrl.
+  unfold subscribe_decode. ok_by ltac:(apply pid_read_be16; exact Hp).
+  ok_by ltac:(apply props_good_rt; exact Hps).
+  rewrite Hpl. cbn [lift_outcome]. rewrite ?V3RT.bind_assoc, bind_ret.
+  err_by ltac:(apply C20_checked_sub; lia).
+Qed.
+
+Theorem C20_suback_short_5 table h pid ps t r : pid_ok pid = true -> props_good ACK_PROPS ps ->
+  h_rl h < 2 + clen (props_enc ACK_PROPS ps) ->
+  suback_decode table h t (be16 pid ++ concat (props_enc ACK_PROPS ps) ++ r) = RErr InvalidRemainingLength.
+Proof.
+  intros Hp Hps Hrl. destruct (props_good_len _ _ Hps) as (pl & Hpl & Hcl). rewrite Hcl in Hrl.
+  unfold suback_decode. ok_by ltac:(apply pid_read_be16; exact Hp).
+  ok_by ltac:(apply props_good_rt; exact Hps).
+  rewrite Hpl. cbn [lift_outcome]. rewrite ?V3RT.bind_assoc, bind_ret.
+  err_by ltac:(apply C20_checked_sub; lia).
+Qed.
+
+Theorem C20_unsubscribe_short_5 prof h pid ps t r : pid_ok pid = true -> props_good UNSUBSCRIBE_PROPS ps ->
+  h_rl h < 2 + clen (props_enc UNSUBSCRIBE_PROPS ps) ->
+  unsubscribe_decode prof h t (be16 pid ++ concat (props_enc UNSUBSCRIBE_PROPS ps) ++ r) = RErr InvalidRemainingLength.
+Proof.
+  intros Hp Hps Hrl.
+  assert (Hcl : clen (props_enc UNSUBSCRIBE_PROPS ps)
+                = props_body_len UNSUBSCRIBE_PROPS ps + width (props_body_len UNSUBSCRIBE_PROPS ps)).
+  { destruct Hps as (_ & Hi & _ & Hb). apply (props_enc_len _ _ Hi Hb). }
+  unfold unsubscribe_decode. ok_by ltac:(apply pid_read_be16; exact Hp).
+  ok_by ltac:(apply props_good_rt_full; exact Hps). cbv iota.
+  err_by ltac:(apply C20_checked_sub; lia).
+Qed.
+
+(* ------------------------------------------------------------------------------------ *)
+(* Poll only: bytes left over / the frame ends inside the body                          *)
+(* ------------------------------------------------------------------------------------ *)
+Theorem C20_poll_leftover_5 prof cb body sfx h p x xs t : len body < VMAX ->
+  header_new_with cb (len body) = Ok h -> build_empty_packet h = None ->
+  block_decode prof h TEof body = ROk p (x :: xs) ->
+  rr_res _ (poll5 prof (cb :: write_var_int (len body) ++ body ++ sfx) t) = Some (Err InvalidRemainingLength).
+Proof.
+  intros Hn Hh Hb Hd.
+  destruct (PollSched.poll1_frame packet header_new_with build_empty_packet (block_decode prof) prof t cb
+              (write_var_int (len body)) (len body) body sfx PollSched.V5_new_with_rl
+              (PollSched.vbi_of_write _ Hn) eq_refl) as [E _].
+  unfold F5.poll1. rewrite E. f_equal. unfold PollSched.frame_result. rewrite Hh, Hb.
+  destruct (N.eqb_spec (len body) 0) as [Ez|_]; [reflexivity|]. cbn [fst].
+  eapply C20_poll_leftover. exact Hd.
+Qed.
+
+Theorem C20_poll_eof_inside_5 prof cb body sfx h t : len body < VMAX ->
+  header_new_with cb (len body) = Ok h -> build_empty_packet h = None ->
+  block_decode prof h TEof body = RErr (io_err TEof) ->
+  rr_res _ (poll5 prof (cb :: write_var_int (len body) ++ body ++ sfx) t) = Some (Err InvalidRemainingLength) /\
+  F5.dec_block prof (cb :: write_var_int (len body) ++ body) = BNone /\
+  F5.dec_async prof TEof (cb :: write_var_int (len body) ++ body) = RErr (IoError KUnexpectedEof).
+Proof.
+  intros Hn Hh Hb Hd.
+  assert (A : F5.dec_async prof TEof (cb :: write_var_int (len body) ++ body) = RErr (IoError KUnexpectedEof)).
+  { rewrite (frame5 prof cb _ h TEof body Hn Hh). rewrite (same5 prof h Hb). exact Hd. }
+  split; [|split; [|exact A]].
+  - destruct (PollSched.poll1_frame packet header_new_with build_empty_packet (block_decode prof) prof t cb
+              (write_var_int (len body)) (len body) body sfx PollSched.V5_new_with_rl
+              (PollSched.vbi_of_write _ Hn) eq_refl) as [E _].
+    unfold F5.poll1. rewrite E. f_equal. unfold PollSched.frame_result. rewrite Hh, Hb.
+    destruct (N.eqb_spec (len body) 0) as [Ez|_]; [reflexivity|]. cbn [fst].
+    apply C20_poll_eof_inside. exact Hd.
+  - unfold F5.dec_block. unfold F5.dec_async in A. rewrite A. reflexivity.
+Qed.
+
+(* ------------------------------------------------------------------------------------ *)
+(* One concrete faulty frame per catalogue row, on the three front-ends                 *)
+(* ------------------------------------------------------------------------------------ *)
+Definition tag_res {A} (r : res A) : option err + bytes :=
+  match r with ROk _ rest => inr rest | RErr e => inl (Some e) | RPanic _ => inl None end.
+Definition tag_bres {A} (r : bres A) : option (option err) :=
+  match r with BOk _ => None | BNone => Some None | BErr e => Some (Some e) | BPanic _ => Some None end.
+Definition tag_poll {A} (r : option (outcome A)) : option err :=
+  match r with Some (Err e) => Some e | _ => None end.
+Definition run5 (d : bytes) : (option err + bytes) * option (option err) * option err :=
+  (tag_res (F5.dec_async Debug TEof d), tag_bres (F5.dec_block Debug d), tag_poll (rr_res _ (F5.poll1 Debug d TEof))).
+Definition all5 (e : err) : (option err + bytes) * option (option err) * option err :=
+  (inl (Some e), Some (Some e), Some e).
+
+Example ex5_header_flags : run5 [65; 2; 0; 1] = all5 InvalidHeader.
+Proof. vm_compute. reflexivity. Qed.
+Example ex5_header_type0 : run5 [0; 0] = all5 InvalidHeader.
+Proof. vm_compute. reflexivity. Qed.
+Example ex5_header_auth_flags : run5 [241; 0] = all5 InvalidHeader.
+Proof. vm_compute. reflexivity. Qed.
+Example ex5_header_qos3 : run5 [54; 4; 0; 1; 97; 0] = all5 (InvalidQos 3).
+Proof. vm_compute. reflexivity. Qed.
+Example ex5_header_pingresp_body : run5 [208; 1; 0] = all5 InvalidHeader.
+Proof. vm_compute. reflexivity. Qed.
+Example ex5_header_varint : run5 [48; 128; 128; 128; 128; 0] = all5 InvalidVarByteInt.
+Proof. vm_compute. reflexivity. Qed.
+Example ex5_pid_zero : run5 [64; 2; 0; 0] = all5 ZeroPid.
+Proof. vm_compute. reflexivity. Qed.
+Example ex5_pid_zero_publish : run5 [50; 6; 0; 1; 97; 0; 0; 0] = all5 ZeroPid.
+Proof. vm_compute. reflexivity. Qed.
+Example ex5_connack_flags : run5 [32; 3; 2; 0; 0] = all5 (InvalidConnackFlags 2).
+Proof. vm_compute. reflexivity. Qed.
+Example ex5_connack_code : run5 [32; 3; 0; 1; 0] = all5 (InvalidReasonCode PConnack 1).
+Proof. vm_compute. reflexivity. Qed.
+Example ex5_puback_code : run5 [64; 3; 0; 1; 1] = all5 (InvalidReasonCode PPuback 1).
+Proof. vm_compute. reflexivity. Qed.
+Example ex5_pubrel_code : run5 [98; 3; 0; 1; 16] = all5 (InvalidReasonCode PPubrel 16).
+Proof. vm_compute. reflexivity. Qed.
+Example ex5_disconnect_code : run5 [224; 1; 1] = all5 (InvalidReasonCode PDisconnect 1).
+Proof. vm_compute. reflexivity. Qed.
+Example ex5_auth_code : run5 [240; 2; 1; 0] = all5 (InvalidReasonCode PAuth 1).
+Proof. vm_compute. reflexivity. Qed.
+Example ex5_suback_code : run5 [144; 5; 0; 1; 0; 0; 3] = all5 (InvalidReasonCode PSuback 3).
+Proof. vm_compute. reflexivity. Qed.
+Example ex5_unsuback_code : run5 [176; 4; 0; 1; 0; 1] = all5 (InvalidReasonCode PUnsuback 1).
+Proof. vm_compute. reflexivity. Qed.
+Example ex5_connect_reserved : run5 [16; 13; 0; 4; 77; 81; 84; 84; 5; 1; 0; 10; 0; 0; 0] = all5 (InvalidConnectFlags 1).
+Proof. vm_compute. reflexivity. Qed.
+Example ex5_connect_will_qos_no_will :
+  run5 [16; 13; 0; 4; 77; 81; 84; 84; 5; 8; 0; 10; 0; 0; 0] = all5 (InvalidConnectFlags 8).
+Proof. vm_compute. reflexivity. Qed.
+Example ex5_connect_will_qos3 : run5 [16; 13; 0; 4; 77; 81; 84; 84; 5; 28; 0; 10; 0; 0; 0] = all5 (InvalidQos 3).
+Proof. vm_compute. reflexivity. Qed.
+Example ex5_protocol_name :
+  run5 [16; 13; 0; 4; 77; 81; 84; 88; 5; 2; 0; 10; 0; 0; 0] = all5 (InvalidProtocol [77; 81; 84; 88] 5).
+Proof. vm_compute. reflexivity. Qed.
+Example ex5_protocol_other_family_311 :
+  run5 [16; 12; 0; 4; 77; 81; 84; 84; 4; 2; 0; 10; 0; 0] = all5 (UnexpectedProtocol V311).
+Proof. vm_compute. reflexivity. Qed.
+Example ex5_protocol_other_family_310 :
+  run5 [16; 14; 0; 6; 77; 81; 73; 115; 100; 112; 3; 2; 0; 10; 0; 0] = all5 (UnexpectedProtocol V310).
+Proof. vm_compute. reflexivity. Qed.
+Example ex5_client_id_not_utf8 :
+  run5 [16; 14; 0; 4; 77; 81; 84; 84; 5; 2; 0; 10; 0; 0; 1; 255] = all5 InvalidString.
+Proof. vm_compute. reflexivity. Qed.
+Example ex5_will_topic :
+  run5 [16; 19; 0; 4; 77; 81; 84; 84; 5; 4; 0; 10; 0; 0; 0; 0; 0; 1; 35; 0; 0] = all5 (InvalidTopicName [35]).
+Proof. vm_compute. reflexivity. Qed.
+Example ex5_will_payload_format :
+  run5 [16; 22; 0; 4; 77; 81; 84; 84; 5; 4; 0; 10; 0; 0; 0; 2; 1; 1; 0; 1; 119; 0; 1; 255] = all5 InvalidPayloadFormat.
+Proof. vm_compute. reflexivity. Qed.
+Example ex5_will_property :
+  run5 [16; 19; 0; 4; 77; 81; 84; 84; 5; 4; 0; 10; 0; 0; 0; 5; 17; 0; 0; 0; 0] = all5 (InvalidWillProperty 17).
+Proof. vm_compute. reflexivity. Qed.
+Example ex5_subscribe_options_qos3 : run5 [130; 7; 0; 1; 0; 0; 1; 97; 3] = all5 (InvalidSubscriptionOption 3).
+Proof. vm_compute. reflexivity. Qed.
+Example ex5_subscribe_options_reserved : run5 [130; 7; 0; 1; 0; 0; 1; 97; 64] = all5 (InvalidSubscriptionOption 64).
+Proof. vm_compute. reflexivity. Qed.
+Example ex5_subscribe_options_rh3 : run5 [130; 7; 0; 1; 0; 0; 1; 97; 48] = all5 (InvalidSubscriptionOption 48).
+Proof. vm_compute. reflexivity. Qed.
+Example ex5_subscribe_filter : run5 [130; 8; 0; 1; 0; 0; 2; 97; 43; 0] = all5 (InvalidTopicFilter [97; 43]).
+Proof. vm_compute. reflexivity. Qed.
+Example ex5_subscribe_empty : run5 [130; 3; 0; 1; 0] = all5 EmptySubscription.
+Proof. vm_compute. reflexivity. Qed.
+Example ex5_unsubscribe_filter : run5 [162; 7; 0; 1; 0; 0; 2; 35; 97] = all5 (InvalidTopicFilter [35; 97]).
+Proof. vm_compute. reflexivity. Qed.
+Example ex5_unsubscribe_empty : run5 [162; 3; 0; 1; 0] = all5 EmptySubscription.
+Proof. vm_compute. reflexivity. Qed.
+Example ex5_prop_unknown : run5 [64; 6; 0; 1; 0; 2; 255; 0] = all5 (InvalidPropertyId 255).
+Proof. vm_compute. reflexivity. Qed.
+Example ex5_prop_disallowed : run5 [64; 6; 0; 1; 0; 2; 1; 0] = all5 (InvalidProperty PPuback 1).
+Proof. vm_compute. reflexivity. Qed.
+Example ex5_prop_duplicated : run5 [224; 8; 0; 6; 31; 0; 0; 31; 0; 0] = all5 (DuplicatedProperty 31).
+Proof. vm_compute. reflexivity. Qed.
+Example ex5_prop_bad_bool : run5 [32; 5; 0; 0; 2; 37; 2] = all5 (InvalidByteProperty 37 2).
+Proof. vm_compute. reflexivity. Qed.
+Example ex5_prop_max_qos : run5 [32; 5; 0; 0; 2; 36; 2] = all5 (InvalidByteProperty 36 2).
+Proof. vm_compute. reflexivity. Qed.
+Example ex5_prop_length_minus_one : run5 [240; 5; 0; 2; 31; 0; 0] = all5 (InvalidPropertyLength 2).
+Proof. vm_compute. reflexivity. Qed.
+Example ex5_prop_length_varint : run5 [64; 8; 0; 1; 0; 128; 128; 128; 128; 0] = all5 InvalidVarByteInt.
+Proof. vm_compute. reflexivity. Qed.
+Example ex5_prop_subscription_id_varint : run5 [130; 9; 0; 1; 6; 11; 128; 128; 128; 128; 0] = all5 InvalidVarByteInt.
+Proof. vm_compute. reflexivity. Qed.
+Example ex5_prop_response_topic : run5 [48; 8; 0; 1; 97; 4; 8; 0; 1; 43] = all5 InvalidResponseTopic.
+Proof. vm_compute. reflexivity. Qed.
+Example ex5_prop_string_not_utf8 : run5 [224; 6; 0; 4; 31; 0; 1; 255] = all5 InvalidString.
+Proof. vm_compute. reflexivity. Qed.
+Example ex5_publish_topic_not_utf8 : run5 [48; 3; 0; 1; 255] = all5 InvalidString.
+Proof. vm_compute. reflexivity. Qed.
+Example ex5_publish_topic_wildcard : run5 [48; 5; 0; 1; 43; 0; 7] = all5 (InvalidTopicName [43]).
+Proof. vm_compute. reflexivity. Qed.
+Example ex5_publish_payload_format : run5 [48; 7; 0; 1; 97; 2; 1; 1; 255] = all5 InvalidPayloadFormat.
+Proof. vm_compute. reflexivity. Qed.
+Example ex5_subscribe_short : run5 [130; 2; 0; 1; 0] = all5 InvalidRemainingLength.
+Proof. vm_compute. reflexivity. Qed.
+(* poll only *)
+Example ex5_extra_byte : run5 [32; 4; 0; 0; 0; 9] = (inr [9], None, Some InvalidRemainingLength).
+Proof. vm_compute. reflexivity. Qed.
+Example ex5_inner_length_past_frame :
+  run5 [16; 13; 0; 4; 77; 81; 84; 84; 5; 2; 0; 10; 0; 0; 9]
+  = (inl (Some (IoError KUnexpectedEof)), Some None, Some InvalidRemainingLength).
+Proof. vm_compute. reflexivity. Qed.
+
+(* ------------------------------------------------------------------------------------ *)
+(* Layer 1, decoder level: the empty topic list                                         *)
+(* ------------------------------------------------------------------------------------ *)
+Theorem C20_subscribe_decode_empty_5 prof h pid ps t r : pid_ok pid = true -> props_good SUBSCRIBE_PROPS ps ->
+  h_rl h = 2 + clen (props_enc SUBSCRIBE_PROPS ps) ->
+  subscribe_decode prof h t (be16 pid ++ concat (props_enc SUBSCRIBE_PROPS ps) ++ r) = RErr EmptySubscription.
+Proof.
+  intros Hp Hps Hrl. destruct (props_good_len _ _ Hps) as (pl & Hpl & Hcl). rewrite Hcl in Hrl.
+  unfold subscribe_decode. ok_by ltac:(apply pid_read_be16; exact Hp).
+  ok_by ltac:(apply props_good_rt; exact Hps).
+  rewrite Hpl. cbn [lift_outcome]. rewrite ?V3RT.bind_assoc, bind_ret.
+  ok_by ltac:(apply checked_sub_ok; lia).
+  destruct (N.eqb_spec (h_rl h - (2 + pl)) 0) as [_|E]; [reflexivity|lia].
+Qed.
+
+Theorem C20_unsubscribe_decode_empty_5 prof h pid ps t r : pid_ok pid = true -> props_good UNSUBSCRIBE_PROPS ps ->
+  h_rl h = 2 + clen (props_enc UNSUBSCRIBE_PROPS ps) ->
+  unsubscribe_decode prof h t (be16 pid ++ concat (props_enc UNSUBSCRIBE_PROPS ps) ++ r) = RErr EmptySubscription.
+Proof.
+  intros Hp Hps Hrl.
+  assert (Hcl : clen (props_enc UNSUBSCRIBE_PROPS ps)
+                = props_body_len UNSUBSCRIBE_PROPS ps + width (props_body_len UNSUBSCRIBE_PROPS ps)).
+  { destruct Hps as (_ & Hi & _ & Hb). apply (props_enc_len _ _ Hi Hb). }
+  unfold unsubscribe_decode. ok_by ltac:(apply pid_read_be16; exact Hp).
+  ok_by ltac:(apply props_good_rt_full; exact Hps). cbv iota.
+  ok_by ltac:(apply checked_sub_ok; lia).
+  match goal with |- context [?a =? 0] => destruct (N.eqb_spec a 0) as [_|E]; [reflexivity|lia] end.
+Qed.
+
+Theorem C20_subscribe_filter_not_utf8_5_all prof pid ps topics s x : pid_ok pid = true ->
+  props_good SUBSCRIBE_PROPS ps -> forallb topic_ok5 topics = true ->
+  len s <= 65535 -> utf8_valid s = false ->
+  let body := be16 pid ++ concat (props_enc SUBSCRIBE_PROPS ps) ++ concat (sub_enc5 topics)
+              ++ be16 (len s mod 65536) ++ s ++ x in
+  len body < VMAX -> classified5 prof (130 :: write_var_int (len body) ++ body) InvalidString.
+Proof.
+  intros Hp Hps Hok Hs Hv body Hn. apply classify5; [exact Hn|reflexivity|]. intros t sfx.
+  unfold body. rewrite <- !app_assoc.
+  apply C20_subscribe_filter_not_utf8_5; try assumption.
+  unfold body. rewrite !len_app, !len_be16, !len_concat_clen, sub_enc5_len. lia.
+Qed.
+
+Theorem C20_unsubscribe_filter_not_utf8_5_all prof pid ps topics s x : pid_ok pid = true ->
+  props_good UNSUBSCRIBE_PROPS ps -> forallb filter_ok topics = true ->
+  len s <= 65535 -> utf8_valid s = false ->
+  let body := be16 pid ++ concat (props_enc UNSUBSCRIBE_PROPS ps) ++ concat (unsub_enc5 topics)
+              ++ be16 (len s mod 65536) ++ s ++ x in
+  len body < VMAX -> classified5 prof (162 :: write_var_int (len body) ++ body) InvalidString.
+Proof.
+  intros Hp Hps Hok Hs Hv body Hn. apply classify5; [exact Hn|reflexivity|]. intros t sfx.
+  unfold body. rewrite <- !app_assoc.
+  apply C20_unsubscribe_filter_not_utf8_5; try assumption.
+  unfold body. rewrite !len_app, !len_be16, !len_concat_clen, unsub_enc5_len. lia.
+Qed.
+
+(* the empty property section of every packet is `props_good` *)
+Lemma props_good_empty L : NoDup (map prop_num L) -> props_good L props_empty.
+Proof.
+  intros Hn. unfold props_good. split; [exact Hn|]. split; [reflexivity|]. split; [reflexivity|].
+  rewrite body_len_split. cbn [pr_user props_empty users_len fold_right].
+  assert (E : ids_len props_empty L = 0).
+  { induction L as [|i L IH]; [reflexivity|]. rewrite ids_len_cons, pget_empty. apply IH.
+    cbn [map] in Hn. inversion Hn. assumption. }
+  rewrite E. reflexivity.
+Qed.
+
+Print Assumptions async_err_to_block_5.
+Print Assumptions async_err_to_poll_5.
+Print Assumptions async_err_to_poll_exact_5.
+Print Assumptions C20_header_verdict_5.
+Print Assumptions C20_header_varint_5.
+Print Assumptions C20_pid_zero_5_all.
+Print Assumptions C20_pid_zero_publish_5_all.
+Print Assumptions C20_connack_flags_5_all.
+Print Assumptions C20_connack_code_5_all.
+Print Assumptions C20_ack_code_5_all.
+Print Assumptions C20_disconnect_code_5_all.
+Print Assumptions C20_auth_code_5_all.
+Print Assumptions C20_suback_code_5_all.
+Print Assumptions section5_fault.
+Print Assumptions C20_prop_unknown_id_5_all.
+Print Assumptions C20_prop_disallowed_5_all.
+Print Assumptions C20_prop_duplicated_5_all.
+Print Assumptions C20_prop_bad_byte_5_all.
+Print Assumptions C20_prop_length_minus_one_5_all.
+Print Assumptions C20_prop_length_varint_5_all.
+Print Assumptions C20_prop_string_not_utf8_5_all.
+Print Assumptions C20_prop_response_topic_5.
+Print Assumptions C20_prop_subscription_id_varint_5.
+Print Assumptions C20_connect_reserved_flag_5_all.
+Print Assumptions C20_connect_will_qos_without_will_5_all.
+Print Assumptions C20_connect_will_qos3_5_frame.
+Print Assumptions C20_connect_protocol_5_all.
+Print Assumptions C20_connect_protocol_not_utf8_5_frame.
+Print Assumptions C20_connect_other_family_5_all.
+Print Assumptions C20_connect_client_id_not_utf8_5_all.
+Print Assumptions C20_connect_will_topic_5_all.
+Print Assumptions C20_connect_will_payload_format_5_all.
+Print Assumptions C20_subscribe_options_5_all.
+Print Assumptions C20_subscribe_filter_5_all.
+Print Assumptions C20_subscribe_filter_not_utf8_5_all.
+Print Assumptions C20_subscribe_empty_5_all.
+Print Assumptions C20_unsubscribe_filter_5_all.
+Print Assumptions C20_unsubscribe_filter_not_utf8_5_all.
+Print Assumptions C20_unsubscribe_empty_5_all.
+Print Assumptions C20_publish_topic_not_utf8_5_all.
+Print Assumptions C20_publish_topic_5_all.
+Print Assumptions C20_publish_payload_format_5_all.
+Print Assumptions C20_publish_short_props_5.
+Print Assumptions C20_subscribe_short_5.
+Print Assumptions C20_unsubscribe_short_5.
+Print Assumptions C20_suback_short_5.
+Print Assumptions C20_poll_leftover_5.
+Print Assumptions C20_poll_eof_inside_5.
